@@ -14,17 +14,19 @@ open CifModel.Gen.ErrCodes
 
 /-! ### a closing bracket or brace where an item is expected: reported and dropped -/
 
-theorem unexpected_delim_step (o : Opts) {path : Path} (ty : TokType) (tx : Str) (next : List TokSpec) (s : PS) (fuel : Nat) (w : W)
+theorem unexpected_delim_step_at (o : Opts) {path : Path} (ty : TokType) (tx : Str) (next : List TokSpec) (s : PS) (fuel : Nat) (w : W)
     (isBlock : Bool) (hty : ty = .clist ∨ ty = .ctable) (hF : Feeds o s ((ty, tx) :: next)) :
     ∃ s' r, elemsLoop o (fuel + 1) s (some path) isBlock acceptAll w
         = elemsLoop o fuel s' (some path) isBlock acceptAll { w with log := r :: w.log }
-      ∧ r.code = CIF_UNEXPECTED_DELIM ∧ Feeds o s' next := by
-  obtain ⟨t, s1, ht, _, hn, _, hr⟩ := hF.inv
-  refine ⟨consume s1, ⟨CIF_UNEXPECTED_DELIM, s1.scan.line, s1.scan.col - t.text.length⟩, ?_, rfl, hr⟩
+      ∧ r.code = CIF_UNEXPECTED_DELIM ∧ Feeds o s' next
+      ∧ RepAt o s 0 r ∧ At o s 1 s' := by
+  obtain ⟨t, s1, ht, _, hn, htk, hr⟩ := hF.inv
+  refine ⟨consume s1, ⟨CIF_UNEXPECTED_DELIM, s1.scan.line, s1.scan.col - t.text.length⟩, ?_, rfl, hr,
+    ⟨s1, (At.refl o s).peek hn htk, rfl⟩, (At.refl o s).step hn htk⟩
   conv => lhs; rw [elemsLoop]
   rcases hty with h | h <;> simp only [bind_eq, pure_eq, P.bind, P.pure, hn, ht, h, report_accept]
 
-theorem unexpected_delim_run (o : Opts) {path : Path} {put : Container → Cif} {code : Str} (hv : View o path put code)
+theorem unexpected_delim_run_at (o : Opts) {path : Path} {put : Container → Cif} {code : Str} (hv : View o path put code)
     (pre post : List Item) (ty : TokType) (tx : Str) (seen seen2 : List Str) (rest : List TokSpec) (s : PS) (fuel : Nat) (w : W)
     (fs : List Container) (ls : List Loop) (isBlock : Bool) (hcif : w.cif = put (.mk code fs ls))
     (hty : ty = .clist ∨ ty = .ctable)
@@ -37,30 +39,33 @@ theorem unexpected_delim_run (o : Opts) {path : Path} {put : Container → Cif} 
     ∃ s' r, elemsLoop o (fuel + post.length + 1 + pre.length) s (some path) isBlock acceptAll w
         = elemsLoop o fuel s' (some path) isBlock acceptAll
             { log := r :: w.log, cif := put (.mk code fs (denoteItems o.dia o.normKey (pre ++ post) ls)) }
-      ∧ r.code = CIF_UNEXPECTED_DELIM ∧ Feeds o s' rest := by
-  have := defect_run o hv pre post [(ty, tx)] id CIF_UNEXPECTED_DELIM 0 seen seen2 rest s fuel w fs ls isBlock hcif hpre hseen
+      ∧ r.code = CIF_UNEXPECTED_DELIM ∧ Feeds o s' rest
+      ∧ RepAt o s ((itemsToks pre).length + 0) r ∧ At o s ((itemsToks pre).length + 1 + (itemsToks post).length) s' := by
+  have := defect_run_at o hv pre post [(ty, tx)] id CIF_UNEXPECTED_DELIM 0 0 1 seen seen2 rest s fuel w fs ls isBlock hcif hpre hseen
     hpost hseen2
     (by
       intro s1 w1 f hc _ hF1
-      obtain ⟨s2, r, h1, h2, h3⟩ := unexpected_delim_step o (path := path) ty tx _ s1 f w1 isBlock hty hF1
-      refine ⟨s2, r, ?_, h2, h3⟩
+      obtain ⟨s2, r, h1, h2, h3, h4, h5⟩ := unexpected_delim_step_at o (path := path) ty tx _ s1 f w1 isBlock hty hF1
+      refine ⟨s2, r, ?_, h2, h3, h4, h5⟩
       rw [h1]; simp only [id]; rw [← hc])
     (by omega) (by intro h; rw [hnoloop] at h; cases h) hrest hF
   simpa [denoteItems_append] using this
 
 /-! ### `save_` in a data block (no save frame is open): reported and dropped -/
 
-theorem unexpected_term_step (o : Opts) {path : Path} (tx : Str) (next : List TokSpec) (s : PS) (fuel : Nat) (w : W)
+theorem unexpected_term_step_at (o : Opts) {path : Path} (tx : Str) (next : List TokSpec) (s : PS) (fuel : Nat) (w : W)
     (hF : Feeds o s ((.frameTerm, tx) :: next)) :
     ∃ s' r, elemsLoop o (fuel + 1) s (some path) true acceptAll w
         = elemsLoop o fuel s' (some path) true acceptAll { w with log := r :: w.log }
-      ∧ r.code = CIF_UNEXPECTED_TERM ∧ Feeds o s' next := by
-  obtain ⟨t, s1, ht, _, hn, _, hr⟩ := hF.inv
-  refine ⟨consume s1, ⟨CIF_UNEXPECTED_TERM, s1.scan.line, s1.scan.col⟩, ?_, rfl, hr⟩
+      ∧ r.code = CIF_UNEXPECTED_TERM ∧ Feeds o s' next
+      ∧ RepAt o s 0 r ∧ At o s 1 s' := by
+  obtain ⟨t, s1, ht, _, hn, htk, hr⟩ := hF.inv
+  refine ⟨consume s1, ⟨CIF_UNEXPECTED_TERM, s1.scan.line, s1.scan.col⟩, ?_, rfl, hr,
+    ⟨s1, (At.refl o s).peek hn htk, rfl⟩, (At.refl o s).step hn htk⟩
   conv => lhs; rw [elemsLoop]
   simp only [bind_eq, pure_eq, P.bind, P.pure, hn, ht, if_true, report_accept]
 
-theorem unexpected_term_run (o : Opts) {path : Path} {put : Container → Cif} {code : Str} (hv : View o path put code)
+theorem unexpected_term_run_at (o : Opts) {path : Path} {put : Container → Cif} {code : Str} (hv : View o path put code)
     (pre post : List Item) (tx : Str) (seen seen2 : List Str) (rest : List TokSpec) (s : PS) (fuel : Nat) (w : W)
     (fs : List Container) (ls : List Loop) (hcif : w.cif = put (.mk code fs ls))
     (hpre : wfItems o pre seen = true) (hseen : ∀ k ∈ normNames o ls, k ∈ seen)
@@ -72,13 +77,14 @@ theorem unexpected_term_run (o : Opts) {path : Path} {put : Container → Cif} {
     ∃ s' r, elemsLoop o (fuel + post.length + 1 + pre.length) s (some path) true acceptAll w
         = elemsLoop o fuel s' (some path) true acceptAll
             { log := r :: w.log, cif := put (.mk code fs (denoteItems o.dia o.normKey (pre ++ post) ls)) }
-      ∧ r.code = CIF_UNEXPECTED_TERM ∧ Feeds o s' rest := by
-  have := defect_run o hv pre post [(.frameTerm, tx)] id CIF_UNEXPECTED_TERM 0 seen seen2 rest s fuel w fs ls true hcif hpre hseen
+      ∧ r.code = CIF_UNEXPECTED_TERM ∧ Feeds o s' rest
+      ∧ RepAt o s ((itemsToks pre).length + 0) r ∧ At o s ((itemsToks pre).length + 1 + (itemsToks post).length) s' := by
+  have := defect_run_at o hv pre post [(.frameTerm, tx)] id CIF_UNEXPECTED_TERM 0 0 1 seen seen2 rest s fuel w fs ls true hcif hpre hseen
     hpost hseen2
     (by
       intro s1 w1 f hc _ hF1
-      obtain ⟨s2, r, h1, h2, h3⟩ := unexpected_term_step o (path := path) tx _ s1 f w1 hF1
-      refine ⟨s2, r, ?_, h2, h3⟩
+      obtain ⟨s2, r, h1, h2, h3, h4, h5⟩ := unexpected_term_step_at o (path := path) tx _ s1 f w1 hF1
+      refine ⟨s2, r, ?_, h2, h3, h4, h5⟩
       rw [h1]; simp only [id]; rw [← hc])
     (by omega) (fun _ => ⟨_, _, _, rfl, rfl⟩) hrest hF
   simpa [denoteItems_append] using this
@@ -94,27 +100,30 @@ open CifModel.Gen.ErrCodes
   `DV` = the tokens of the defective value, `vd` = the value the documented recovery makes of it, `C` = the code; `hval` = what
   parse_value does on it (one report).  The item is stored with the recovered value. -/
 
-theorem item_defect_step (o : Opts) {path : Path} {put : Container → Cif} {code : Str} (hv : View o path put code)
-    (n : Str) (hty : TokType) (htx : Str) (DV : List TokSpec) (vd : V) (C : Code) (next : List TokSpec) (s : PS) (fuel : Nat) (w : W)
-    (fs : List Container) (ls : List Loop) (isBlock : Bool)
+theorem item_defect_step_at (o : Opts) {path : Path} {put : Container → Cif} {code : Str} (hv : View o path put code)
+    (n : Str) (hty : TokType) (htx : Str) (DV : List TokSpec) (vd : V) (C : Code) (jv nv : Nat) (next : List TokSpec) (s : PS)
+    (fuel : Nat) (w : W) (fs : List Container) (ls : List Loop) (isBlock : Bool)
     (hcif : w.cif = put (.mk code fs ls)) (hname : wfName n = true) (hfresh : o.norm n ∉ normNames o ls)
     (hstart : isValueStart hty = true) (hkey : isKeyTok hty = false)
     (hval : ∀ (s1 : PS) (w1 : W), Feeds o s1 ((hty, htx) :: DV ++ next) →
-      ∃ s2 r, parseValue o fuel s1 acceptAll w1 = .ok (vd, s2) { w1 with log := r :: w1.log } ∧ r.code = C ∧ Feeds o s2 next)
+      ∃ s2 r, parseValue o fuel s1 acceptAll w1 = .ok (vd, s2) { w1 with log := r :: w1.log } ∧ r.code = C ∧ Feeds o s2 next
+        ∧ RepAt o s1 jv r ∧ At o s1 nv s2)
     (hF : Feeds o s ((.name, n) :: ((hty, htx) :: DV ++ next))) :
     ∃ s' r, elemsLoop o (fuel + 1) s (some path) isBlock acceptAll w
         = elemsLoop o fuel s' (some path) isBlock acceptAll { log := r :: w.log, cif := put (.mk code fs (putScalar ls n vd)) }
-      ∧ r.code = C ∧ Feeds o s' next := by
+      ∧ r.code = C ∧ Feeds o s' next
+      ∧ RepAt o s (1 + jv) r ∧ At o s (1 + nv) s' := by
   simp only [wfName, Bool.and_eq_true] at hname
-  obtain ⟨t, s1, hty1, htx1, hn, _, hr⟩ := hF.inv
+  obtain ⟨t, s1, hty1, htx1, hn, htk, hr⟩ := hF.inv
   have hr' := hr
   simp only [List.cons_append] at hr'
   obtain ⟨t2, s2, hty2, htx2, hn2, ht2, hr2⟩ := hr'.inv
+  have a2 : At o s 1 s2 := ((At.refl o s).step hn htk).peek hn2 ht2
   have hpend : Feeds o s2 ((hty, htx) :: DV ++ next) := by
     simp only [List.cons_append]
     rw [← hty2, ← htx2]; exact Feeds.pending ht2 hr2
-  obtain ⟨s3, r, h1, hc, h2⟩ := hval s2 w hpend
-  refine ⟨s3, r, ?_, hc, h2⟩
+  obtain ⟨s3, r, h1, hc, h2, hrep, ha⟩ := hval s2 w hpend
+  refine ⟨s3, r, ?_, hc, h2, RepAt.shift a2 hrep, a2.trans ha⟩
   conv => lhs; rw [elemsLoop]
   simp only [bind_eq, pure_eq, P.bind, P.pure, hn, hty1, htx1, cstr_noNul hname.2,
     itemExists_false o hv n fs ls acceptAll w hcif hname.1 hfresh, Bool.false_eq_true, if_false, hname.1, Bool.not_true, and_false]
@@ -123,8 +132,8 @@ theorem item_defect_step (o : Opts) {path : Path} {put : Container → Cif} {cod
   rw [setValue_new o hv n vd fs ls acceptAll ⟨r :: w.log, w.cif⟩ hcif hname.1 hfresh]
 
 /-- the item with the defective value inside any well-formed runs -/
-theorem item_defect_run (o : Opts) {path : Path} {put : Container → Cif} {code : Str} (hv : View o path put code)
-    (pre post : List Item) (n : Str) (hty : TokType) (htx : Str) (DV : List TokSpec) (vd : V) (C : Code) (need : Nat)
+theorem item_defect_run_at (o : Opts) {path : Path} {put : Container → Cif} {code : Str} (hv : View o path put code)
+    (pre post : List Item) (n : Str) (hty : TokType) (htx : Str) (DV : List TokSpec) (vd : V) (C : Code) (need jv nv : Nat)
     (seen seen2 : List Str) (rest : List TokSpec) (s : PS) (fuel : Nat) (w : W)
     (fs : List Container) (ls : List Loop) (isBlock : Bool) (hcif : w.cif = put (.mk code fs ls))
     (hpre : wfItems o pre seen = true) (hseen : ∀ k ∈ normNames o ls, k ∈ seen)
@@ -132,7 +141,7 @@ theorem item_defect_run (o : Opts) {path : Path} {put : Container → Cif} {code
     (hstart : isValueStart hty = true) (hkey : isKeyTok hty = false)
     (hval : ∀ (f : Nat) (s1 : PS) (w1 : W), need ≤ f → Feeds o s1 ((hty, htx) :: DV ++ (itemsToks post ++ rest)) →
       ∃ s2 r, parseValue o f s1 acceptAll w1 = .ok (vd, s2) { w1 with log := r :: w1.log } ∧ r.code = C
-        ∧ Feeds o s2 (itemsToks post ++ rest))
+        ∧ Feeds o s2 (itemsToks post ++ rest) ∧ RepAt o s1 jv r ∧ At o s1 nv s2)
     (hpost : wfItems o post seen2 = true)
     (hseen2 : ∀ k ∈ normNames o (putScalar (denoteItems o.dia o.normKey pre ls) n vd), k ∈ seen2)
     (hfuel : szItems pre + szItems post + need + 1 ≤ fuel)
@@ -142,13 +151,14 @@ theorem item_defect_run (o : Opts) {path : Path} {put : Container → Cif} {code
         = elemsLoop o fuel s' (some path) isBlock acceptAll
             { log := r :: w.log,
               cif := put (.mk code fs (denoteItems o.dia o.normKey post (putScalar (denoteItems o.dia o.normKey pre ls) n vd))) }
-      ∧ r.code = C ∧ Feeds o s' rest :=
-  defect_run o hv pre post ((.name, n) :: (hty, htx) :: DV) (fun l => putScalar l n vd) C need seen seen2 rest s fuel w fs ls isBlock
-    hcif hpre hseen hpost hseen2
+      ∧ r.code = C ∧ Feeds o s' rest
+      ∧ RepAt o s ((itemsToks pre).length + (1 + jv)) r ∧ At o s ((itemsToks pre).length + (1 + nv) + (itemsToks post).length) s' :=
+  defect_run_at o hv pre post ((.name, n) :: (hty, htx) :: DV) (fun l => putScalar l n vd) C need (1 + jv) (1 + nv) seen seen2 rest s
+    fuel w fs ls isBlock hcif hpre hseen hpost hseen2
     (by
       intro s1 w1 f hc hf hF1
       simp only [List.cons_append, List.append_assoc] at hF1
-      exact item_defect_step o hv n hty htx DV vd C _ s1 f w1 fs _ isBlock hc hname hfresh hstart hkey
+      exact item_defect_step_at o hv n hty htx DV vd C jv nv _ s1 f w1 fs _ isBlock hc hname hfresh hstart hkey
         (fun s2 w2 h => hval f s2 w2 hf (by simpa [List.append_assoc] using h))
         (by simpa [List.append_assoc] using hF1))
     hfuel (fun _ => ⟨_, _, _, rfl, rfl⟩) hrest hF
@@ -167,13 +177,15 @@ theorem values_open (o : Opts) : ∀ (vs : List Val) (ty : TokType) (tx : Str) (
     Feeds o s (valsToks vs ++ (ty, tx) :: ts) →
     ∃ s' r, listLoop o fuel s acc acceptAll w = .ok (acc ++ denoteVals o.dia o.normKey vs, s') { w with log := r :: w.log }
       ∧ r.code = CIF_MISSING_DELIM ∧ Feeds o s' ((ty, tx) :: ts)
+      ∧ RepAt o s (valsToks vs).length r ∧ At o s (valsToks vs).length s'
   | [], ty, tx, ts, s, fuel, w, acc, _, hf, hterm, hF => by
     obtain ⟨f, rfl⟩ : ∃ f, fuel = f + 1 := ⟨fuel - 1, by omega⟩
     simp only [valsToks, List.nil_append] at hF
     obtain ⟨t, s', hty, htx, hn, ht, hr⟩ := hF.inv
     simp only [isTerminator, Bool.not_eq_true', Bool.or_eq_false_iff, beq_eq_false_iff_ne, ne_eq] at hterm
+    have a0 : At o s (valsToks []).length s' := ((At.refl o s).peek hn ht).cast (by simp [valsToks])
     refine ⟨s', ⟨CIF_MISSING_DELIM, s'.scan.line, s'.scan.col - t.text.length⟩, ?_, rfl,
-      by rw [← hty, ← htx]; exact Feeds.pending ht hr⟩
+      by rw [← hty, ← htx]; exact Feeds.pending ht hr, ⟨s', a0, rfl⟩, a0⟩
     rw [listLoop]
     simp only [bind_eq, pure_eq, P.bind, P.pure, hn, hty, hterm.1.1.1, hterm.1.1.2, hterm.1.2, Bool.false_eq_true, if_false,
       report_accept, denoteVals, List.append_nil]
@@ -189,9 +201,10 @@ theorem values_open (o : Opts) : ∀ (vs : List Val) (ty : TokType) (tx : Str) (
     obtain ⟨t, s', hty, htx, hn, ht, hr⟩ := hF'.inv
     have hpend : Feeds o s' (valToks v ++ (valsToks vs ++ (ty, tx) :: ts)) := by
       rw [hvt, List.cons_append, ← hty, ← htx]; exact Feeds.pending ht hr
-    obtain ⟨s1, h1, h2⟩ := value_structure o v _ s' f acceptAll w hw.1 (by omega) hpend
-    obtain ⟨s2, r, h3, hc, h4⟩ := values_open o vs ty tx ts s1 f w (acc ++ [denoteVal o.dia o.normKey v]) hw.2 (by omega) hterm h2
-    refine ⟨s2, r, ?_, hc, h4⟩
+    obtain ⟨s1, h1, h2, ha1⟩ := value_structure_at o v _ s' f acceptAll w hw.1 (by omega) hpend
+    obtain ⟨s2, r, h3, hc, h4, hrep, ha2⟩ := values_open o vs ty tx ts s1 f w (acc ++ [denoteVal o.dia o.normKey v]) hw.2 (by omega) hterm h2
+    have a1 : At o s (valToks v).length s1 := (((At.refl o s).peek hn ht).trans ha1).cast (by omega)
+    refine ⟨s2, r, ?_, hc, h4, (RepAt.shift a1 hrep).cast (by simp [valsToks]), (a1.trans ha2).cast (by simp [valsToks])⟩
     rw [listLoop]
     simp only [bind_eq, pure_eq, P.bind, P.pure, hn, hty, hkey, hstart, if_true, h1, h3, denoteVals,
       List.append_assoc, List.singleton_append, Bool.false_eq_true, if_false]
@@ -202,12 +215,14 @@ theorem entries_open (o : Opts) : ∀ (es : List (Str × Presentation × Val)) (
     Feeds o s (entriesToks es ++ (ty, tx) :: ts) →
     ∃ s' r, tableLoop o fuel s acc acceptAll w = .ok (denoteEntries o.dia o.normKey es acc, s') { w with log := r :: w.log }
       ∧ r.code = CIF_MISSING_DELIM ∧ Feeds o s' ((ty, tx) :: ts)
+      ∧ RepAt o s (entriesToks es).length r ∧ At o s (entriesToks es).length s'
   | [], ty, tx, ts, s, fuel, w, acc, _, hf, hterm, hF => by
     obtain ⟨f, rfl⟩ : ∃ f, fuel = f + 1 := ⟨fuel - 1, by omega⟩
     simp only [entriesToks, List.nil_append] at hF
     obtain ⟨t, s', hty, htx, hn, ht, hr⟩ := hF.inv
+    have a0 : At o s (entriesToks []).length s' := ((At.refl o s).peek hn ht).cast (by simp [entriesToks])
     refine ⟨s', ⟨CIF_MISSING_DELIM, s'.scan.line, s'.scan.col - t.text.length⟩, ?_, rfl,
-      by rw [← hty, ← htx]; exact Feeds.pending ht hr⟩
+      by rw [← hty, ← htx]; exact Feeds.pending ht hr, ⟨s', a0, rfl⟩, a0⟩
     rw [tableLoop]
     cases ty <;> simp [isTerminator, isKeyTok, isValueStart] at hterm <;>
       simp only [bind_eq, pure_eq, P.bind, P.pure, hn, hty, report_accept, denoteEntries]
@@ -218,17 +233,19 @@ theorem entries_open (o : Opts) : ∀ (es : List (Str × Presentation × Val)) (
     have hp := szVal_pos v
     obtain ⟨g, rfl⟩ : ∃ g, f = g + 1 := ⟨f - 1, by omega⟩
     simp only [entriesToks, List.cons_append, List.append_assoc] at hF
-    obtain ⟨t, s', hty, htx, hn, _, hr⟩ := hF.inv
+    obtain ⟨t, s', hty, htx, hn, htk, hr⟩ := hF.inv
     obtain ⟨vty, vtx, vts, hvt, hstart, _⟩ := valToks_head v
     have hr' := hr
     rw [hvt, List.cons_append] at hr'
     obtain ⟨t2, s2, hty2, htx2, hn2, ht2, hr2⟩ := hr'.inv
     have hpend : Feeds o s2 (valToks v ++ (entriesToks es ++ (ty, tx) :: ts)) := by
       rw [hvt, List.cons_append, ← hty2, ← htx2]; exact Feeds.pending ht2 hr2
-    obtain ⟨s3, h1, h2⟩ := value_structure o v _ s2 g acceptAll w hw.1.2 (by omega) hpend
-    obtain ⟨s4, r, h3, hc, h4⟩ := entries_open o es ty tx ts s3 g w (putEntry o.normKey acc k (denoteVal o.dia o.normKey v)) hw.2
+    obtain ⟨s3, h1, h2, ha1⟩ := value_structure_at o v _ s2 g acceptAll w hw.1.2 (by omega) hpend
+    obtain ⟨s4, r, h3, hc, h4, hrep, ha2⟩ := entries_open o es ty tx ts s3 g w (putEntry o.normKey acc k (denoteVal o.dia o.normKey v)) hw.2
       (by omega) hterm h2
-    refine ⟨s4, r, ?_, hc, h4⟩
+    have a1 : At o s (1 + (valToks v).length) s3 := (((At.refl o s).step hn htk).peek hn2 ht2).trans ha1
+    refine ⟨s4, r, ?_, hc, h4, (RepAt.shift a1 hrep).cast (by simp [entriesToks]; omega),
+      (a1.trans ha2).cast (by simp [entriesToks]; omega)⟩
     rw [tableLoop]
     simp only [bind_eq, pure_eq, P.bind, P.pure, hn, hty, htx, cstr_noNul hw.1.1.1]
     rw [tableEntry]
@@ -240,12 +257,14 @@ theorem open_list_value (o : Opts) (vs : List Val) (btx : Str) (ty : TokType) (t
     (hw : wfVals o vs = true) (hf : szVals vs + 2 ≤ fuel) (hterm : isTerminator ty = true)
     (hF : Feeds o s ((.olist, btx) :: valsToks vs ++ (ty, tx) :: ts)) :
     ∃ s' r, parseValue o fuel s acceptAll w = .ok (.lst (denoteVals o.dia o.normKey vs), s') { w with log := r :: w.log }
-      ∧ r.code = CIF_MISSING_DELIM ∧ Feeds o s' ((ty, tx) :: ts) := by
+      ∧ r.code = CIF_MISSING_DELIM ∧ Feeds o s' ((ty, tx) :: ts)
+      ∧ RepAt o s (1 + (valsToks vs).length) r ∧ At o s (1 + (valsToks vs).length) s' := by
   obtain ⟨f, rfl⟩ : ∃ f, fuel = f + 1 := ⟨fuel - 1, by omega⟩
   simp only [List.cons_append] at hF
-  obtain ⟨t, s1, hty, _, hn, _, hr⟩ := hF.inv
-  obtain ⟨s2, r, h1, hc, h2⟩ := values_open o vs ty tx ts (consume s1) f w [] hw (by omega) hterm hr
-  refine ⟨s2, r, ?_, hc, h2⟩
+  obtain ⟨t, s1, hty, _, hn, htk, hr⟩ := hF.inv
+  obtain ⟨s2, r, h1, hc, h2, hrep, ha⟩ := values_open o vs ty tx ts (consume s1) f w [] hw (by omega) hterm hr
+  have a1 : At o s 1 (consume s1) := (At.refl o s).step hn htk
+  refine ⟨s2, r, ?_, hc, h2, RepAt.shift a1 hrep, a1.trans ha⟩
   rw [parseValue]
   simp only [bind_eq, pure_eq, P.bind, P.pure, hn, hty, h1, List.nil_append]
 
@@ -254,12 +273,14 @@ theorem open_table_value (o : Opts) (es : List (Str × Presentation × Val)) (bt
     (s : PS) (fuel : Nat) (w : W) (hw : wfEntries o es = true) (hf : szEntries es + 2 ≤ fuel) (hterm : isTerminator ty = true)
     (hF : Feeds o s ((.otable, btx) :: entriesToks es ++ (ty, tx) :: ts)) :
     ∃ s' r, parseValue o fuel s acceptAll w = .ok (.tbl (denoteEntries o.dia o.normKey es []), s') { w with log := r :: w.log }
-      ∧ r.code = CIF_MISSING_DELIM ∧ Feeds o s' ((ty, tx) :: ts) := by
+      ∧ r.code = CIF_MISSING_DELIM ∧ Feeds o s' ((ty, tx) :: ts)
+      ∧ RepAt o s (1 + (entriesToks es).length) r ∧ At o s (1 + (entriesToks es).length) s' := by
   obtain ⟨f, rfl⟩ : ∃ f, fuel = f + 1 := ⟨fuel - 1, by omega⟩
   simp only [List.cons_append] at hF
-  obtain ⟨t, s1, hty, _, hn, _, hr⟩ := hF.inv
-  obtain ⟨s2, r, h1, hc, h2⟩ := entries_open o es ty tx ts (consume s1) f w [] hw (by omega) hterm hr
-  refine ⟨s2, r, ?_, hc, h2⟩
+  obtain ⟨t, s1, hty, _, hn, htk, hr⟩ := hF.inv
+  obtain ⟨s2, r, h1, hc, h2, hrep, ha⟩ := entries_open o es ty tx ts (consume s1) f w [] hw (by omega) hterm hr
+  have a1 : At o s 1 (consume s1) := (At.refl o s).step hn htk
+  refine ⟨s2, r, ?_, hc, h2, RepAt.shift a1 hrep, a1.trans ha⟩
   rw [parseValue]
   simp only [bind_eq, pure_eq, P.bind, P.pure, hn, hty, h1]
 
@@ -283,7 +304,7 @@ theorem next_is_terminator (post : List Item) (rest : List TokSpec)
     exact ⟨ty, tx, ts ++ (itemsToks r ++ rest), by simp [itemsToks, h], ht⟩
 
 /-- **unterminated list**: `_n [ v₁ … vₖ` followed by something that cannot continue the list -/
-theorem missing_delim_list_run (o : Opts) {path : Path} {put : Container → Cif} {code : Str} (hv : View o path put code)
+theorem missing_delim_list_run_at (o : Opts) {path : Path} {put : Container → Cif} {code : Str} (hv : View o path put code)
     (pre post : List Item) (n : Str) (btx : Str) (vs : List Val) (seen seen2 : List Str) (rest : List TokSpec) (s : PS) (fuel : Nat)
     (w : W) (fs : List Container) (ls : List Loop) (isBlock : Bool) (hcif : w.cif = put (.mk code fs ls))
     (hpre : wfItems o pre seen = true) (hseen : ∀ k ∈ normNames o ls, k ∈ seen)
@@ -297,10 +318,12 @@ theorem missing_delim_list_run (o : Opts) {path : Path} {put : Container → Cif
     ∃ s' r, elemsLoop o (fuel + post.length + 1 + pre.length) s (some path) isBlock acceptAll w
         = elemsLoop o fuel s' (some path) isBlock acceptAll
             { log := r :: w.log, cif := put (.mk code fs (denoteItems o.dia o.normKey (pre ++ [.item n (.lst vs)] ++ post) ls)) }
-      ∧ r.code = CIF_MISSING_DELIM ∧ Feeds o s' rest := by
+      ∧ r.code = CIF_MISSING_DELIM ∧ Feeds o s' rest
+      ∧ RepAt o s ((itemsToks pre).length + (1 + (1 + (valsToks vs).length))) r
+      ∧ At o s ((itemsToks pre).length + (1 + (1 + (valsToks vs).length)) + (itemsToks post).length) s' := by
   obtain ⟨ty, tx, ts, hnx, hterm⟩ := next_is_terminator post rest hpostne
-  have := item_defect_run o hv pre post n .olist btx (valsToks vs) (.lst (denoteVals o.dia o.normKey vs)) CIF_MISSING_DELIM
-    (szVals vs + 2) seen seen2 rest s fuel w fs ls isBlock hcif hpre hseen hname hfresh rfl rfl
+  have := item_defect_run_at o hv pre post n .olist btx (valsToks vs) (.lst (denoteVals o.dia o.normKey vs)) CIF_MISSING_DELIM
+    (szVals vs + 2) (1 + (valsToks vs).length) (1 + (valsToks vs).length) seen seen2 rest s fuel w fs ls isBlock hcif hpre hseen hname hfresh rfl rfl
     (by
       intro f s1 w1 hf hF1
       rw [hnx] at hF1 ⊢
@@ -309,7 +332,7 @@ theorem missing_delim_list_run (o : Opts) {path : Path} {put : Container → Cif
   simpa [denoteItems_append, denoteItems, denoteVal] using this
 
 /-- **unterminated table**: `_n { k₁:v₁ … kₖ:vₖ` followed by something that cannot continue the table -/
-theorem missing_delim_table_run (o : Opts) {path : Path} {put : Container → Cif} {code : Str} (hv : View o path put code)
+theorem missing_delim_table_run_at (o : Opts) {path : Path} {put : Container → Cif} {code : Str} (hv : View o path put code)
     (pre post : List Item) (n : Str) (btx : Str) (es : List (Str × Presentation × Val)) (seen seen2 : List Str) (rest : List TokSpec)
     (s : PS) (fuel : Nat) (w : W) (fs : List Container) (ls : List Loop) (isBlock : Bool) (hcif : w.cif = put (.mk code fs ls))
     (hpre : wfItems o pre seen = true) (hseen : ∀ k ∈ normNames o ls, k ∈ seen)
@@ -323,10 +346,12 @@ theorem missing_delim_table_run (o : Opts) {path : Path} {put : Container → Ci
     ∃ s' r, elemsLoop o (fuel + post.length + 1 + pre.length) s (some path) isBlock acceptAll w
         = elemsLoop o fuel s' (some path) isBlock acceptAll
             { log := r :: w.log, cif := put (.mk code fs (denoteItems o.dia o.normKey (pre ++ [.item n (.tbl es)] ++ post) ls)) }
-      ∧ r.code = CIF_MISSING_DELIM ∧ Feeds o s' rest := by
+      ∧ r.code = CIF_MISSING_DELIM ∧ Feeds o s' rest
+      ∧ RepAt o s ((itemsToks pre).length + (1 + (1 + (entriesToks es).length))) r
+      ∧ At o s ((itemsToks pre).length + (1 + (1 + (entriesToks es).length)) + (itemsToks post).length) s' := by
   obtain ⟨ty, tx, ts, hnx, hterm⟩ := next_is_terminator post rest hpostne
-  have := item_defect_run o hv pre post n .otable btx (entriesToks es) (.tbl (denoteEntries o.dia o.normKey es [])) CIF_MISSING_DELIM
-    (szEntries es + 2) seen seen2 rest s fuel w fs ls isBlock hcif hpre hseen hname hfresh rfl rfl
+  have := item_defect_run_at o hv pre post n .otable btx (entriesToks es) (.tbl (denoteEntries o.dia o.normKey es [])) CIF_MISSING_DELIM
+    (szEntries es + 2) (1 + (entriesToks es).length) (1 + (entriesToks es).length) seen seen2 rest s fuel w fs ls isBlock hcif hpre hseen hname hfresh rfl rfl
     (by
       intro f s1 w1 hf hF1
       rw [hnx] at hF1 ⊢
@@ -346,23 +371,24 @@ open CifModel.Gen.ErrCodes
 theorem entries_prefix (o : Opts) : ∀ (es : List (Str × Presentation × Val)) (X : List TokSpec) (s : PS) (fuel : Nat) (pol : Policy)
     (w : W) (acc : List (Str × Str × V)), wfEntries o es = true → szEntries es ≤ fuel → Feeds o s (entriesToks es ++ X) →
     ∃ s', tableLoop o (fuel + 2 * es.length) s acc pol w = tableLoop o fuel s' (denoteEntries o.dia o.normKey es acc) pol w
-      ∧ Feeds o s' X
-  | [], X, s, fuel, pol, w, acc, _, _, hF => ⟨s, by simp [denoteEntries], by simpa [entriesToks] using hF⟩
+      ∧ Feeds o s' X ∧ At o s (entriesToks es).length s'
+  | [], X, s, fuel, pol, w, acc, _, _, hF =>
+    ⟨s, by simp [denoteEntries], by simpa [entriesToks] using hF, (At.refl o s).cast (by simp [entriesToks])⟩
   | (k, kp, v) :: es, X, s, fuel, pol, w, acc, hw, hf, hF => by
     simp only [wfEntries, Bool.and_eq_true, Bool.not_eq_true'] at hw
     simp only [szEntries] at hf
     simp only [entriesToks, List.cons_append, List.append_assoc] at hF
-    obtain ⟨t, s', hty, htx, hn, _, hr⟩ := hF.inv
+    obtain ⟨t, s', hty, htx, hn, htk, hr⟩ := hF.inv
     obtain ⟨vty, vtx, vts, hvt, hstart, _⟩ := valToks_head v
     have hr' := hr
     rw [hvt, List.cons_append] at hr'
     obtain ⟨t2, s2, hty2, htx2, hn2, ht2, hr2⟩ := hr'.inv
     have hpend : Feeds o s2 (valToks v ++ (entriesToks es ++ X)) := by
       rw [hvt, List.cons_append, ← hty2, ← htx2]; exact Feeds.pending ht2 hr2
-    obtain ⟨s3, h1, h2⟩ := value_structure o v _ s2 (fuel + 2 * es.length) pol w hw.1.2 (by omega) hpend
-    obtain ⟨s4, h3, h4⟩ := entries_prefix o es X s3 fuel pol w (putEntry o.normKey acc k (denoteVal o.dia o.normKey v)) hw.2
+    obtain ⟨s3, h1, h2, ha1⟩ := value_structure_at o v _ s2 (fuel + 2 * es.length) pol w hw.1.2 (by omega) hpend
+    obtain ⟨s4, h3, h4, ha2⟩ := entries_prefix o es X s3 fuel pol w (putEntry o.normKey acc k (denoteVal o.dia o.normKey v)) hw.2
       (by omega) h2
-    refine ⟨s4, ?_, h4⟩
+    refine ⟨s4, ?_, h4, (((((At.refl o s).step hn htk).peek hn2 ht2).trans ha1).trans ha2).cast (by simp [entriesToks]; omega)⟩
     have hfu : fuel + 2 * ((k, kp, v) :: es).length = (fuel + 2 * es.length + 1) + 1 := by simp; omega
     rw [hfu, tableLoop]
     simp only [bind_eq, pure_eq, P.bind, P.pure, hn, hty, htx, cstr_noNul hw.1.1.1]
@@ -372,38 +398,42 @@ theorem entries_prefix (o : Opts) : ∀ (es : List (Str × Presentation × Val))
 
 /-- well-formed entries, ONE defective entry (`DE`, recovered as `recE`, `cost` iterations of fuel), well-formed entries, `}` -/
 theorem entries_defect (o : Opts) (pre post : List (Str × Presentation × Val)) (DE : List TokSpec)
-    (recE : List (Str × Str × V) → List (Str × Str × V)) (C : Code) (cost : Nat) (rest : List TokSpec) (s : PS) (F : Nat) (w : W)
+    (recE : List (Str × Str × V) → List (Str × Str × V)) (C : Code) (cost jE nE : Nat) (rest : List TokSpec) (s : PS) (F : Nat) (w : W)
     (acc : List (Str × Str × V)) (hpre : wfEntries o pre = true) (hpost : wfEntries o post = true)
     (hstep : ∀ (s1 : PS) (w1 : W) (acc1 : List (Str × Str × V)),
       Feeds o s1 (DE ++ (entriesToks post ++ (.ctable, [125]) :: rest)) →
       ∃ s2 r, tableLoop o (F + cost) s1 acc1 acceptAll w1 = tableLoop o F s2 (recE acc1) acceptAll { w1 with log := r :: w1.log }
-        ∧ r.code = C ∧ Feeds o s2 (entriesToks post ++ (.ctable, [125]) :: rest))
+        ∧ r.code = C ∧ Feeds o s2 (entriesToks post ++ (.ctable, [125]) :: rest) ∧ RepAt o s1 jE r ∧ At o s1 nE s2)
     (hf1 : szEntries pre ≤ F + cost) (hf2 : szEntries post + 1 ≤ F)
     (hF : Feeds o s (entriesToks pre ++ (DE ++ (entriesToks post ++ (.ctable, [125]) :: rest)))) :
     ∃ s' r, tableLoop o (F + cost + 2 * pre.length) s acc acceptAll w
         = .ok (denoteEntries o.dia o.normKey post (recE (denoteEntries o.dia o.normKey pre acc)), s') { w with log := r :: w.log }
-      ∧ r.code = C ∧ Feeds o s' rest := by
-  obtain ⟨s1, h1, h2⟩ := entries_prefix o pre _ s (F + cost) acceptAll w acc hpre hf1 hF
-  obtain ⟨s2, r, h3, hc, h4⟩ := hstep s1 w (denoteEntries o.dia o.normKey pre acc) h2
-  obtain ⟨s3, h5, h6⟩ := entries_structure o post rest s2 F acceptAll { w with log := r :: w.log } _ hpost hf2 h4
-  exact ⟨s3, r, by rw [h1, h3, h5], hc, h6⟩
+      ∧ r.code = C ∧ Feeds o s' rest
+      ∧ RepAt o s ((entriesToks pre).length + jE) r ∧ At o s ((entriesToks pre).length + nE + ((entriesToks post).length + 1)) s' := by
+  obtain ⟨s1, h1, h2, ha1⟩ := entries_prefix o pre _ s (F + cost) acceptAll w acc hpre hf1 hF
+  obtain ⟨s2, r, h3, hc, h4, hrep, ha2⟩ := hstep s1 w (denoteEntries o.dia o.normKey pre acc) h2
+  obtain ⟨s3, h5, h6, ha3⟩ := entries_structure_at o post rest s2 F acceptAll { w with log := r :: w.log } _ hpost hf2 h4
+  exact ⟨s3, r, by rw [h1, h3, h5], hc, h6, RepAt.shift ha1 hrep, (ha1.trans ha2).trans ha3⟩
 
 /-- parse_value on a table with one defective entry -/
 theorem table_defect_value (o : Opts) (pre post : List (Str × Presentation × Val)) (DE : List TokSpec)
-    (recE : List (Str × Str × V) → List (Str × Str × V)) (C : Code) (cost : Nat) (btx : Str) (rest : List TokSpec) (s : PS) (F : Nat) (w : W)
-    (hpre : wfEntries o pre = true) (hpost : wfEntries o post = true)
+    (recE : List (Str × Str × V) → List (Str × Str × V)) (C : Code) (cost jE nE : Nat) (btx : Str) (rest : List TokSpec) (s : PS) (F : Nat)
+    (w : W) (hpre : wfEntries o pre = true) (hpost : wfEntries o post = true)
     (hstep : ∀ (s1 : PS) (w1 : W) (acc1 : List (Str × Str × V)),
       Feeds o s1 (DE ++ (entriesToks post ++ (.ctable, [125]) :: rest)) →
       ∃ s2 r, tableLoop o (F + cost) s1 acc1 acceptAll w1 = tableLoop o F s2 (recE acc1) acceptAll { w1 with log := r :: w1.log }
-        ∧ r.code = C ∧ Feeds o s2 (entriesToks post ++ (.ctable, [125]) :: rest))
+        ∧ r.code = C ∧ Feeds o s2 (entriesToks post ++ (.ctable, [125]) :: rest) ∧ RepAt o s1 jE r ∧ At o s1 nE s2)
     (hf1 : szEntries pre ≤ F + cost) (hf2 : szEntries post + 1 ≤ F)
     (hF : Feeds o s ((.otable, btx) :: (entriesToks pre ++ (DE ++ (entriesToks post ++ (.ctable, [125]) :: rest))))) :
     ∃ s' r, parseValue o (F + cost + 2 * pre.length + 1) s acceptAll w
         = .ok (.tbl (denoteEntries o.dia o.normKey post (recE (denoteEntries o.dia o.normKey pre []))), s') { w with log := r :: w.log }
-      ∧ r.code = C ∧ Feeds o s' rest := by
-  obtain ⟨t, s1, hty, _, hn, _, hr⟩ := hF.inv
-  obtain ⟨s2, r, h1, hc, h2⟩ := entries_defect o pre post DE recE C cost rest (consume s1) F w [] hpre hpost hstep hf1 hf2 hr
-  refine ⟨s2, r, ?_, hc, h2⟩
+      ∧ r.code = C ∧ Feeds o s' rest
+      ∧ RepAt o s (1 + ((entriesToks pre).length + jE)) r
+      ∧ At o s (1 + ((entriesToks pre).length + nE + ((entriesToks post).length + 1))) s' := by
+  obtain ⟨t, s1, hty, _, hn, htk, hr⟩ := hF.inv
+  obtain ⟨s2, r, h1, hc, h2, hrep, ha⟩ := entries_defect o pre post DE recE C cost jE nE rest (consume s1) F w [] hpre hpost hstep hf1 hf2 hr
+  have a1 : At o s 1 (consume s1) := (At.refl o s).step hn htk
+  refine ⟨s2, r, ?_, hc, h2, RepAt.shift a1 hrep, a1.trans ha⟩
   rw [parseValue]
   simp only [bind_eq, pure_eq, P.bind, P.pure, hn, hty, h1]
 
@@ -417,7 +447,7 @@ open CifModel.Gen.ErrCodes
     `hstepAll` = the behaviour of the table loop on the defective entry, for every sufficient fuel `F ≥ needE`. -/
 theorem table_item_run (o : Opts) {path : Path} {put : Container → Cif} {code : Str} (hv : View o path put code)
     (pre post : List Item) (n : Str) (btx : Str) (epre epost : List (Str × Presentation × Val)) (DE : List TokSpec)
-    (recE : List (Str × Str × V) → List (Str × Str × V)) (C : Code) (cost needE : Nat)
+    (recE : List (Str × Str × V) → List (Str × Str × V)) (C : Code) (cost needE jE nE : Nat)
     (seen seen2 : List Str) (rest : List TokSpec) (s : PS) (fuel : Nat) (w : W)
     (fs : List Container) (ls : List Loop) (isBlock : Bool) (hcif : w.cif = put (.mk code fs ls))
     (hpre : wfItems o pre seen = true) (hseen : ∀ k ∈ normNames o ls, k ∈ seen)
@@ -426,7 +456,7 @@ theorem table_item_run (o : Opts) {path : Path} {put : Container → Cif} {code 
     (hstepAll : ∀ (F : Nat) (X : List TokSpec) (s1 : PS) (w1 : W) (acc1 : List (Str × Str × V)), needE ≤ F →
       Feeds o s1 (DE ++ (entriesToks epost ++ (.ctable, [125]) :: X)) →
       ∃ s2 r, tableLoop o (F + cost) s1 acc1 acceptAll w1 = tableLoop o F s2 (recE acc1) acceptAll { w1 with log := r :: w1.log }
-        ∧ r.code = C ∧ Feeds o s2 (entriesToks epost ++ (.ctable, [125]) :: X))
+        ∧ r.code = C ∧ Feeds o s2 (entriesToks epost ++ (.ctable, [125]) :: X) ∧ RepAt o s1 jE r ∧ At o s1 nE s2)
     (hpost : wfItems o post seen2 = true)
     (hseen2 : ∀ k ∈ normNames o (putScalar (denoteItems o.dia o.normKey pre ls) n
         (.tbl (denoteEntries o.dia o.normKey epost (recE (denoteEntries o.dia o.normKey epre []))))), k ∈ seen2)
@@ -439,16 +469,20 @@ theorem table_item_run (o : Opts) {path : Path} {put : Container → Cif} {code 
             { log := r :: w.log,
               cif := put (.mk code fs (denoteItems o.dia o.normKey post (putScalar (denoteItems o.dia o.normKey pre ls) n
                 (.tbl (denoteEntries o.dia o.normKey epost (recE (denoteEntries o.dia o.normKey epre []))))))) }
-      ∧ r.code = C ∧ Feeds o s' rest :=
-  item_defect_run o hv pre post n .otable btx (entriesToks epre ++ (DE ++ (entriesToks epost ++ [(.ctable, [125])])))
+      ∧ r.code = C ∧ Feeds o s' rest
+      ∧ RepAt o s ((itemsToks pre).length + (1 + (1 + ((entriesToks epre).length + jE)))) r
+      ∧ At o s ((itemsToks pre).length + (1 + (1 + ((entriesToks epre).length + nE + ((entriesToks epost).length + 1))))
+          + (itemsToks post).length) s' :=
+  item_defect_run_at o hv pre post n .otable btx (entriesToks epre ++ (DE ++ (entriesToks epost ++ [(.ctable, [125])])))
     (.tbl (denoteEntries o.dia o.normKey epost (recE (denoteEntries o.dia o.normKey epre [])))) C
-    (szEntries epre + szEntries epost + needE + cost + 2 * epre.length + 3) seen seen2 rest s fuel w fs ls isBlock hcif hpre hseen hname
+    (szEntries epre + szEntries epost + needE + cost + 2 * epre.length + 3)
+    (1 + ((entriesToks epre).length + jE)) (1 + ((entriesToks epre).length + nE + ((entriesToks epost).length + 1))) seen seen2 rest s fuel w fs ls isBlock hcif hpre hseen hname
     hfresh rfl rfl
     (by
       intro f s1 w1 hf hF1
       obtain ⟨F, hFe⟩ : ∃ F, f = F + cost + 2 * epre.length + 1 := ⟨f - cost - 2 * epre.length - 1, by omega⟩
       rw [hFe]
-      refine table_defect_value o epre epost DE recE C cost btx _ s1 F w1 hepre hepost
+      refine table_defect_value o epre epost DE recE C cost jE nE btx _ s1 F w1 hepre hepost
         (fun s2 w2 acc2 h => hstepAll F _ s2 w2 acc2 (by omega) h) (by omega) (by omega) ?_
       simpa [List.append_assoc] using hF1)
     hpost hseen2 hfuel hrest hF
@@ -470,20 +504,22 @@ theorem entries_rest_head (es : List (Str × Presentation × Val)) (X : List Tok
 
 /-! ### a key without a value (CIF_MISSING_VALUE inside a table): the entry gets the unknown value -/
 
-theorem table_missing_value_step (o : Opts) (k : Str) (epost : List (Str × Presentation × Val)) (X : List TokSpec) (F : Nat) (s1 : PS)
+theorem table_missing_value_step_at (o : Opts) (k : Str) (epost : List (Str × Presentation × Val)) (X : List TokSpec) (F : Nat) (s1 : PS)
     (w1 : W) (acc1 : List (Str × Str × V)) (hk0 : noNul k = true) (hkd : hasDisallowed k = false)
     (hF : Feeds o s1 ([(.key, k)] ++ (entriesToks epost ++ (.ctable, [125]) :: X))) :
     ∃ s2 r, tableLoop o (F + 2) s1 acc1 acceptAll w1
         = tableLoop o F s2 (putEntry o.normKey acc1 k .unk) acceptAll { w1 with log := r :: w1.log }
-      ∧ r.code = CIF_MISSING_VALUE ∧ Feeds o s2 (entriesToks epost ++ (.ctable, [125]) :: X) := by
+      ∧ r.code = CIF_MISSING_VALUE ∧ Feeds o s2 (entriesToks epost ++ (.ctable, [125]) :: X)
+      ∧ RepAt o s1 1 r ∧ At o s1 1 s2 := by
   simp only [List.singleton_append] at hF
-  obtain ⟨t, s', hty, htx, hn, _, hr⟩ := hF.inv
+  obtain ⟨t, s', hty, htx, hn, htk, hr⟩ := hF.inv
   obtain ⟨ty2, tx2, ts2, hhead, hns⟩ := entries_rest_head epost X
   have hr' := hr
   rw [hhead] at hr'
   obtain ⟨t2, s2, hty2, htx2, hn2, ht2, hr2⟩ := hr'.inv
+  have a2 : At o s1 1 s2 := ((At.refl o s1).step hn htk).peek hn2 ht2
   refine ⟨s2, ⟨CIF_MISSING_VALUE, s2.scan.line, s2.scan.col - t2.text.length⟩, ?_, rfl,
-    by rw [hhead, ← hty2, ← htx2]; exact Feeds.pending ht2 hr2⟩
+    by rw [hhead, ← hty2, ← htx2]; exact Feeds.pending ht2 hr2, ⟨s2, a2, rfl⟩, a2⟩
   rw [tableLoop]
   simp only [bind_eq, pure_eq, P.bind, P.pure, hn, hty, htx, cstr_noNul hk0]
   rw [tableEntry]
@@ -492,7 +528,7 @@ theorem table_missing_value_step (o : Opts) (k : Str) (epost : List (Str × Pres
 
 /-! ### a text field used as a key (CIF_MISQUOTED_KEY): its decoded content is the key -/
 
-theorem table_misquoted_key_step (o : Opts) (body : Str) (v : Val) (epost : List (Str × Presentation × Val)) (X : List TokSpec) (F : Nat)
+theorem table_misquoted_key_step_at (o : Opts) (body : Str) (v : Val) (epost : List (Str × Presentation × Val)) (X : List TokSpec) (F : Nat)
     (s1 : PS) (w1 : W) (acc1 : List (Str × Str × V))
     (hk0 : noNul (Decode.decodeText o.unfold o.prem body) = true) (hkd : hasDisallowed (Decode.decodeText o.unfold o.prem body) = false)
     (hwv : wfVal o v = true) (hf : szVal v ≤ F)
@@ -500,9 +536,10 @@ theorem table_misquoted_key_step (o : Opts) (body : Str) (v : Val) (epost : List
     ∃ s2 r, tableLoop o (F + 2) s1 acc1 acceptAll w1
         = tableLoop o F s2 (putEntry o.normKey acc1 (Decode.decodeText o.unfold o.prem body) (denoteVal o.dia o.normKey v)) acceptAll
             { w1 with log := r :: w1.log }
-      ∧ r.code = CIF_MISQUOTED_KEY ∧ Feeds o s2 (entriesToks epost ++ (.ctable, [125]) :: X) := by
+      ∧ r.code = CIF_MISQUOTED_KEY ∧ Feeds o s2 (entriesToks epost ++ (.ctable, [125]) :: X)
+      ∧ RepAt o s1 0 r ∧ At o s1 (1 + (valToks v).length) s2 := by
   simp only [List.cons_append] at hF
-  obtain ⟨t, s', hty, htx, hn, _, hr⟩ := hF.inv
+  obtain ⟨t, s', hty, htx, hn, htk, hr⟩ := hF.inv
   obtain ⟨vty, vtx, vts, hvt, hstart, _⟩ := valToks_head v
   have hr' := hr
   rw [hvt, List.cons_append] at hr'
@@ -510,8 +547,8 @@ theorem table_misquoted_key_step (o : Opts) (body : Str) (v : Val) (epost : List
   have hpend : Feeds o s2 (valToks v ++ (entriesToks epost ++ (.ctable, [125]) :: X)) := by
     rw [hvt, List.cons_append, ← hty2, ← htx2]; exact Feeds.pending ht2 hr2
   let r0 : Report := ⟨CIF_MISQUOTED_KEY, s'.scan.line, s'.scan.col - body.length⟩
-  obtain ⟨s3, h1, h2⟩ := value_structure o v _ s2 F acceptAll { w1 with log := r0 :: w1.log } hwv hf hpend
-  refine ⟨s3, r0, ?_, rfl, h2⟩
+  obtain ⟨s3, h1, h2, ha⟩ := value_structure_at o v _ s2 F acceptAll { w1 with log := r0 :: w1.log } hwv hf hpend
+  refine ⟨s3, r0, ?_, rfl, h2, ⟨s', (At.refl o s1).peek hn htk, rfl⟩, (((At.refl o s1).step hn htk).peek hn2 ht2).trans ha⟩
   rw [tableLoop]
   simp only [bind_eq, pure_eq, P.bind, P.pure, hn, hty, htx, report_accept, cstr_noNul hk0]
   rw [tableEntry]
@@ -540,11 +577,12 @@ theorem valToks_head_notBare (v : Val) (h : notBare v = true) :
   | lst vs => exact ⟨_, _, _, rfl, Or.inr (Or.inr (Or.inl rfl))⟩
   | tbl es => exact ⟨_, _, _, rfl, Or.inr (Or.inr (Or.inr rfl))⟩
 
-theorem table_missing_key_step (o : Opts) (v : Val) (epost : List (Str × Presentation × Val)) (X : List TokSpec) (F : Nat)
+theorem table_missing_key_step_at (o : Opts) (v : Val) (epost : List (Str × Presentation × Val)) (X : List TokSpec) (F : Nat)
     (s1 : PS) (w1 : W) (acc1 : List (Str × Str × V)) (hnb : notBare v = true) (hwv : wfVal o v = true) (hf : szVal v ≤ F)
     (hF : Feeds o s1 (valToks v ++ (entriesToks epost ++ (.ctable, [125]) :: X))) :
     ∃ s2 r, tableLoop o (F + 1) s1 acc1 acceptAll w1 = tableLoop o F s2 acc1 acceptAll { w1 with log := r :: w1.log }
-      ∧ r.code = CIF_MISSING_KEY ∧ Feeds o s2 (entriesToks epost ++ (.ctable, [125]) :: X) := by
+      ∧ r.code = CIF_MISSING_KEY ∧ Feeds o s2 (entriesToks epost ++ (.ctable, [125]) :: X)
+      ∧ RepAt o s1 0 r ∧ At o s1 (valToks v).length s2 := by
   obtain ⟨vty, vtx, vts, hvt, hty4⟩ := valToks_head_notBare v hnb
   have hF' := hF
   rw [hvt, List.cons_append] at hF'
@@ -552,33 +590,36 @@ theorem table_missing_key_step (o : Opts) (v : Val) (epost : List (Str × Presen
   have hpend : Feeds o s' (valToks v ++ (entriesToks epost ++ (.ctable, [125]) :: X)) := by
     rw [hvt, List.cons_append, ← hty, ← htx]; exact Feeds.pending ht hr
   let r0 : Report := ⟨CIF_MISSING_KEY, s'.scan.line, s'.scan.col - t.text.length⟩
-  obtain ⟨s3, h1, h2⟩ := value_structure o v _ s' F acceptAll { w1 with log := r0 :: w1.log } hwv hf hpend
-  refine ⟨s3, r0, ?_, rfl, h2⟩
+  obtain ⟨s3, h1, h2, ha⟩ := value_structure_at o v _ s' F acceptAll { w1 with log := r0 :: w1.log } hwv hf hpend
+  refine ⟨s3, r0, ?_, rfl, h2, ⟨s', (At.refl o s1).peek hn ht, rfl⟩, (((At.refl o s1).peek hn ht).trans ha).cast (by omega)⟩
   rw [tableLoop]
   rcases hty4 with h | h | h | h <;>
     simp only [bind_eq, pure_eq, P.bind, P.pure, hn, hty, h, report_accept, h1, r0]
 
 /-- a whitespace-delimited word without a colon inside a table -/
-theorem table_stray_word_step (o : Opts) (tx : Str) (epost : List (Str × Presentation × Val)) (X : List TokSpec) (F : Nat)
+theorem table_stray_word_step_at (o : Opts) (tx : Str) (epost : List (Str × Presentation × Val)) (X : List TokSpec) (F : Nat)
     (s1 : PS) (w1 : W) (acc1 : List (Str × Str × V)) (hhead : tx.head? ≠ some colon) (hcolon : colonIdx tx = none)
     (hF : Feeds o s1 ([(.value, tx)] ++ (entriesToks epost ++ (.ctable, [125]) :: X))) :
     ∃ s2 r, tableLoop o (F + 1) s1 acc1 acceptAll w1 = tableLoop o F s2 acc1 acceptAll { w1 with log := r :: w1.log }
-      ∧ r.code = CIF_MISSING_KEY ∧ Feeds o s2 (entriesToks epost ++ (.ctable, [125]) :: X) := by
+      ∧ r.code = CIF_MISSING_KEY ∧ Feeds o s2 (entriesToks epost ++ (.ctable, [125]) :: X)
+      ∧ RepAt o s1 0 r ∧ At o s1 1 s2 := by
   simp only [List.singleton_append] at hF
-  obtain ⟨t, s', hty, htx, hn, _, hr⟩ := hF.inv
-  refine ⟨consume s', ⟨CIF_MISSING_KEY, s'.scan.line, s'.scan.col - t.text.length⟩, ?_, rfl, hr⟩
+  obtain ⟨t, s', hty, htx, hn, htk, hr⟩ := hF.inv
+  refine ⟨consume s', ⟨CIF_MISSING_KEY, s'.scan.line, s'.scan.col - t.text.length⟩, ?_, rfl, hr,
+    ⟨s', (At.refl o s1).peek hn htk, rfl⟩, (At.refl o s1).step hn htk⟩
   rw [tableLoop]
   simp only [bind_eq, pure_eq, P.bind, P.pure, hn, hty, htx, hhead, if_false, hcolon, report_accept]
 
 /-! ### a colon without a key (CIF_NULL_KEY), the colon standing alone: the value behind it is parsed and dropped -/
 
-theorem table_null_key_step (o : Opts) (v : Val) (epost : List (Str × Presentation × Val)) (X : List TokSpec) (F : Nat)
+theorem table_null_key_step_at (o : Opts) (v : Val) (epost : List (Str × Presentation × Val)) (X : List TokSpec) (F : Nat)
     (s1 : PS) (w1 : W) (acc1 : List (Str × Str × V)) (hwv : wfVal o v = true) (hf : szVal v ≤ F)
     (hF : Feeds o s1 (((.value, [colon]) :: valToks v) ++ (entriesToks epost ++ (.ctable, [125]) :: X))) :
     ∃ s2 r, tableLoop o (F + 2) s1 acc1 acceptAll w1 = tableLoop o F s2 acc1 acceptAll { w1 with log := r :: w1.log }
-      ∧ r.code = CIF_NULL_KEY ∧ Feeds o s2 (entriesToks epost ++ (.ctable, [125]) :: X) := by
+      ∧ r.code = CIF_NULL_KEY ∧ Feeds o s2 (entriesToks epost ++ (.ctable, [125]) :: X)
+      ∧ RepAt o s1 0 r ∧ At o s1 (1 + (valToks v).length) s2 := by
   simp only [List.cons_append] at hF
-  obtain ⟨t, s', hty, htx, hn, _, hr⟩ := hF.inv
+  obtain ⟨t, s', hty, htx, hn, htk, hr⟩ := hF.inv
   obtain ⟨vty, vtx, vts, hvt, hstart, _⟩ := valToks_head v
   have hr' := hr
   rw [hvt, List.cons_append] at hr'
@@ -586,8 +627,8 @@ theorem table_null_key_step (o : Opts) (v : Val) (epost : List (Str × Presentat
   have hpend : Feeds o s2 (valToks v ++ (entriesToks epost ++ (.ctable, [125]) :: X)) := by
     rw [hvt, List.cons_append, ← hty2, ← htx2]; exact Feeds.pending ht2 hr2
   let r0 : Report := ⟨CIF_NULL_KEY, s'.scan.line, s'.scan.col - 1⟩
-  obtain ⟨s3, h1, h2⟩ := value_structure o v _ s2 F acceptAll { w1 with log := r0 :: w1.log } hwv hf hpend
-  refine ⟨s3, r0, ?_, rfl, h2⟩
+  obtain ⟨s3, h1, h2, ha⟩ := value_structure_at o v _ s2 F acceptAll { w1 with log := r0 :: w1.log } hwv hf hpend
+  refine ⟨s3, r0, ?_, rfl, h2, ⟨s', (At.refl o s1).peek hn htk, rfl⟩, (((At.refl o s1).step hn htk).peek hn2 ht2).trans ha⟩
   rw [tableLoop]
   simp only [bind_eq, pure_eq, P.bind, P.pure, hn, hty, htx, List.head?_cons, if_true, report_accept, List.length_singleton,
     Nat.lt_irrefl, gt_iff_lt, if_false]
@@ -609,7 +650,7 @@ theorem denoteEntries_append (dia : Dialect) (nk : Str → Str) : ∀ (a b : Lis
     that of the document in which the defective construct is replaced by `R` -/
 theorem table_item_run_as (o : Opts) {path : Path} {put : Container → Cif} {code : Str} (hv : View o path put code)
     (pre post : List Item) (n : Str) (btx : Str) (epre epost R : List (Str × Presentation × Val)) (DE : List TokSpec)
-    (C : Code) (cost needE : Nat)
+    (C : Code) (cost needE jE nE : Nat)
     (seen seen2 : List Str) (rest : List TokSpec) (s : PS) (fuel : Nat) (w : W)
     (fs : List Container) (ls : List Loop) (isBlock : Bool) (hcif : w.cif = put (.mk code fs ls))
     (hpre : wfItems o pre seen = true) (hseen : ∀ k ∈ normNames o ls, k ∈ seen)
@@ -619,7 +660,7 @@ theorem table_item_run_as (o : Opts) {path : Path} {put : Container → Cif} {co
       Feeds o s1 (DE ++ (entriesToks epost ++ (.ctable, [125]) :: X)) →
       ∃ s2 r, tableLoop o (F + cost) s1 acc1 acceptAll w1
           = tableLoop o F s2 (denoteEntries o.dia o.normKey R acc1) acceptAll { w1 with log := r :: w1.log }
-        ∧ r.code = C ∧ Feeds o s2 (entriesToks epost ++ (.ctable, [125]) :: X))
+        ∧ r.code = C ∧ Feeds o s2 (entriesToks epost ++ (.ctable, [125]) :: X) ∧ RepAt o s1 jE r ∧ At o s1 nE s2)
     (hpost : wfItems o post seen2 = true)
     (hseen2 : ∀ k ∈ normNames o (denoteItems o.dia o.normKey (pre ++ [.item n (.tbl (epre ++ R ++ epost))]) ls), k ∈ seen2)
     (hfuel : szItems pre + szItems post + (szEntries epre + szEntries epost + needE + cost + 2 * epre.length + 3) + 1 ≤ fuel)
@@ -630,8 +671,11 @@ theorem table_item_run_as (o : Opts) {path : Path} {put : Container → Cif} {co
         = elemsLoop o fuel s' (some path) isBlock acceptAll
             { log := r :: w.log,
               cif := put (.mk code fs (denoteItems o.dia o.normKey (pre ++ [.item n (.tbl (epre ++ R ++ epost))] ++ post) ls)) }
-      ∧ r.code = C ∧ Feeds o s' rest := by
-  have := table_item_run o hv pre post n btx epre epost DE (fun acc => denoteEntries o.dia o.normKey R acc) C cost needE seen seen2
+      ∧ r.code = C ∧ Feeds o s' rest
+      ∧ RepAt o s ((itemsToks pre).length + (1 + (1 + ((entriesToks epre).length + jE)))) r
+      ∧ At o s ((itemsToks pre).length + (1 + (1 + ((entriesToks epre).length + nE + ((entriesToks epost).length + 1))))
+          + (itemsToks post).length) s' := by
+  have := table_item_run o hv pre post n btx epre epost DE (fun acc => denoteEntries o.dia o.normKey R acc) C cost needE jE nE seen seen2
     rest s fuel w fs ls isBlock hcif hpre hseen hname hfresh hepre hepost hstepAll hpost
     (by simpa [denoteItems_append, denoteItems, denoteVal, denoteEntries_append] using hseen2) hfuel hrest hF
   simpa [denoteItems_append, denoteItems, denoteVal, denoteEntries_append] using this
@@ -644,8 +688,8 @@ open CifModel.Gen.ErrCodes
 
 /-! ### the table-key classes, universally: any container, any items before and behind, any entries before and behind -/
 
-/-- a key that is not followed by a value, inside a table: one CIF_MISSING_VALUE, the key gets the unknown value; the entries before and behind, the items before and behind are unaffected -/
-theorem table_missing_value_run (o : Opts) {path : Path} {put : Container → Cif} {code : Str} (hv : View o path put code)
+/-- a key that is not followed by a value, inside a table: one CIF_MISSING_VALUE, the key gets the unknown value; the entries before and behind, the items before and behind are unaffected; the report is made with the token behind the key scanned -/
+theorem table_missing_value_run_at (o : Opts) {path : Path} {put : Container → Cif} {code : Str} (hv : View o path put code)
     (pre post : List Item) (n : Str) (btx : Str) (epre epost : List (Str × Presentation × Val)) (k : Str) (kp : Presentation)
     (seen seen2 : List Str) (rest : List TokSpec) (s : PS) (fuel : Nat) (w : W)
     (fs : List Container) (ls : List Loop) (isBlock : Bool) (hcif : w.cif = put (.mk code fs ls))
@@ -662,14 +706,17 @@ theorem table_missing_value_run (o : Opts) {path : Path} {put : Container → Ci
         = elemsLoop o fuel s' (some path) isBlock acceptAll
             { log := r :: w.log,
               cif := put (.mk code fs (denoteItems o.dia o.normKey (pre ++ [.item n (.tbl (epre ++ [(k, kp, Val.unk)] ++ epost))] ++ post) ls)) }
-      ∧ r.code = CIF_MISSING_VALUE ∧ Feeds o s' rest :=
-  table_item_run_as o hv pre post n btx epre epost [(k, kp, Val.unk)] [(TokType.key, k)] CIF_MISSING_VALUE 2 0 seen seen2 rest s fuel w fs ls isBlock
+      ∧ r.code = CIF_MISSING_VALUE ∧ Feeds o s' rest
+      ∧ RepAt o s ((itemsToks pre).length + (1 + (1 + ((entriesToks epre).length + 1)))) r
+      ∧ At o s ((itemsToks pre).length + (1 + (1 + ((entriesToks epre).length + 1 + ((entriesToks epost).length + 1))))
+          + (itemsToks post).length) s' :=
+  table_item_run_as o hv pre post n btx epre epost [(k, kp, Val.unk)] [(TokType.key, k)] CIF_MISSING_VALUE 2 0 1 1 seen seen2 rest s fuel w fs ls isBlock
     hcif hpre hseen hname hfresh hepre hepost
-    (fun F X s1 w1 acc1 hf h => by simpa [denoteEntries, denoteVal] using table_missing_value_step o k epost X F s1 w1 acc1 hk0 hkd h)
+    (fun F X s1 w1 acc1 hf h => by simpa [denoteEntries, denoteVal] using table_missing_value_step_at o k epost X F s1 w1 acc1 hk0 hkd h)
     hpost hseen2 hfuel hrest hF
 
 /-- a text field in key position: one CIF_MISQUOTED_KEY, the entry is kept under the decoded content of the field -/
-theorem table_misquoted_key_run (o : Opts) {path : Path} {put : Container → Cif} {code : Str} (hv : View o path put code)
+theorem table_misquoted_key_run_at (o : Opts) {path : Path} {put : Container → Cif} {code : Str} (hv : View o path put code)
     (pre post : List Item) (n : Str) (btx : Str) (epre epost : List (Str × Presentation × Val)) (body : Str) (kp : Presentation) (v : Val)
     (seen seen2 : List Str) (rest : List TokSpec) (s : PS) (fuel : Nat) (w : W)
     (fs : List Container) (ls : List Loop) (isBlock : Bool) (hcif : w.cif = put (.mk code fs ls))
@@ -679,7 +726,7 @@ theorem table_misquoted_key_run (o : Opts) {path : Path} {put : Container → Ci
     (hkd : hasDisallowed (Decode.decodeText o.unfold o.prem body) = false) (hwv : wfVal o v = true)
     (hpost : wfItems o post seen2 = true)
     (hseen2 : ∀ x ∈ normNames o (denoteItems o.dia o.normKey (pre ++ [.item n (.tbl (epre ++ [(Decode.decodeText o.unfold o.prem body, kp, v)] ++ epost))]) ls), x ∈ seen2)
-    (hfuel : szItems pre + szItems post + (szEntries epre + szEntries epost + szVal v + 2 + 2 * epre.length + 3) + 1 ≤ fuel)
+    (hfuel : szItems pre + szItems post + (szEntries epre + szEntries epost + (szVal v) + 2 + 2 * epre.length + 3) + 1 ≤ fuel)
     (hrest : lastIsLoop post = true → ∃ ty tx ts, rest = (ty, tx) :: ts ∧ isTerminator ty = true)
     (hF : Feeds o s (itemsToks pre ++ (((.name, n) :: (.otable, btx) ::
         (entriesToks epre ++ (((TokType.tkey, body) :: valToks v) ++ (entriesToks epost ++ [(.ctable, [125])])))) ++ (itemsToks post ++ rest)))) :
@@ -687,14 +734,17 @@ theorem table_misquoted_key_run (o : Opts) {path : Path} {put : Container → Ci
         = elemsLoop o fuel s' (some path) isBlock acceptAll
             { log := r :: w.log,
               cif := put (.mk code fs (denoteItems o.dia o.normKey (pre ++ [.item n (.tbl (epre ++ [(Decode.decodeText o.unfold o.prem body, kp, v)] ++ epost))] ++ post) ls)) }
-      ∧ r.code = CIF_MISQUOTED_KEY ∧ Feeds o s' rest :=
-  table_item_run_as o hv pre post n btx epre epost [(Decode.decodeText o.unfold o.prem body, kp, v)] ((TokType.tkey, body) :: valToks v) CIF_MISQUOTED_KEY 2 (szVal v) seen seen2 rest s fuel w fs ls isBlock
+      ∧ r.code = CIF_MISQUOTED_KEY ∧ Feeds o s' rest
+      ∧ RepAt o s ((itemsToks pre).length + (1 + (1 + ((entriesToks epre).length + 0)))) r
+      ∧ At o s ((itemsToks pre).length + (1 + (1 + ((entriesToks epre).length + (1 + (valToks v).length) + ((entriesToks epost).length + 1))))
+          + (itemsToks post).length) s' :=
+  table_item_run_as o hv pre post n btx epre epost [(Decode.decodeText o.unfold o.prem body, kp, v)] ((TokType.tkey, body) :: valToks v) CIF_MISQUOTED_KEY 2 (szVal v) 0 (1 + (valToks v).length) seen seen2 rest s fuel w fs ls isBlock
     hcif hpre hseen hname hfresh hepre hepost
-    (fun F X s1 w1 acc1 hf h => by simpa [denoteEntries, denoteVal] using table_misquoted_key_step o body v epost X F s1 w1 acc1 hk0 hkd hwv hf h)
+    (fun F X s1 w1 acc1 hf h => by simpa [denoteEntries, denoteVal] using table_misquoted_key_step_at o body v epost X F s1 w1 acc1 hk0 hkd hwv hf h)
     hpost hseen2 hfuel hrest hF
 
 /-- a delimited string, text field, list or table without a key inside a table: one CIF_MISSING_KEY, the value is parsed (whatever its size) and dropped -/
-theorem table_missing_key_run (o : Opts) {path : Path} {put : Container → Cif} {code : Str} (hv : View o path put code)
+theorem table_missing_key_run_at (o : Opts) {path : Path} {put : Container → Cif} {code : Str} (hv : View o path put code)
     (pre post : List Item) (n : Str) (btx : Str) (epre epost : List (Str × Presentation × Val)) (v : Val)
     (seen seen2 : List Str) (rest : List TokSpec) (s : PS) (fuel : Nat) (w : W)
     (fs : List Container) (ls : List Loop) (isBlock : Bool) (hcif : w.cif = put (.mk code fs ls))
@@ -703,7 +753,7 @@ theorem table_missing_key_run (o : Opts) {path : Path} {put : Container → Cif}
     (hepre : wfEntries o epre = true) (hepost : wfEntries o epost = true) (hnb : notBare v = true) (hwv : wfVal o v = true)
     (hpost : wfItems o post seen2 = true)
     (hseen2 : ∀ x ∈ normNames o (denoteItems o.dia o.normKey (pre ++ [.item n (.tbl (epre ++ [] ++ epost))]) ls), x ∈ seen2)
-    (hfuel : szItems pre + szItems post + (szEntries epre + szEntries epost + szVal v + 1 + 2 * epre.length + 3) + 1 ≤ fuel)
+    (hfuel : szItems pre + szItems post + (szEntries epre + szEntries epost + (szVal v) + 1 + 2 * epre.length + 3) + 1 ≤ fuel)
     (hrest : lastIsLoop post = true → ∃ ty tx ts, rest = (ty, tx) :: ts ∧ isTerminator ty = true)
     (hF : Feeds o s (itemsToks pre ++ (((.name, n) :: (.otable, btx) ::
         (entriesToks epre ++ ((valToks v) ++ (entriesToks epost ++ [(.ctable, [125])])))) ++ (itemsToks post ++ rest)))) :
@@ -711,14 +761,17 @@ theorem table_missing_key_run (o : Opts) {path : Path} {put : Container → Cif}
         = elemsLoop o fuel s' (some path) isBlock acceptAll
             { log := r :: w.log,
               cif := put (.mk code fs (denoteItems o.dia o.normKey (pre ++ [.item n (.tbl (epre ++ [] ++ epost))] ++ post) ls)) }
-      ∧ r.code = CIF_MISSING_KEY ∧ Feeds o s' rest :=
-  table_item_run_as o hv pre post n btx epre epost [] (valToks v) CIF_MISSING_KEY 1 (szVal v) seen seen2 rest s fuel w fs ls isBlock
+      ∧ r.code = CIF_MISSING_KEY ∧ Feeds o s' rest
+      ∧ RepAt o s ((itemsToks pre).length + (1 + (1 + ((entriesToks epre).length + 0)))) r
+      ∧ At o s ((itemsToks pre).length + (1 + (1 + ((entriesToks epre).length + (valToks v).length + ((entriesToks epost).length + 1))))
+          + (itemsToks post).length) s' :=
+  table_item_run_as o hv pre post n btx epre epost [] (valToks v) CIF_MISSING_KEY 1 (szVal v) 0 (valToks v).length seen seen2 rest s fuel w fs ls isBlock
     hcif hpre hseen hname hfresh hepre hepost
-    (fun F X s1 w1 acc1 hf h => by simpa [denoteEntries, denoteVal] using table_missing_key_step o v epost X F s1 w1 acc1 hnb hwv hf h)
+    (fun F X s1 w1 acc1 hf h => by simpa [denoteEntries, denoteVal] using table_missing_key_step_at o v epost X F s1 w1 acc1 hnb hwv hf h)
     hpost hseen2 hfuel hrest hF
 
 /-- a whitespace-delimited word without a colon inside a table: one CIF_MISSING_KEY, the word is dropped -/
-theorem table_stray_word_run (o : Opts) {path : Path} {put : Container → Cif} {code : Str} (hv : View o path put code)
+theorem table_stray_word_run_at (o : Opts) {path : Path} {put : Container → Cif} {code : Str} (hv : View o path put code)
     (pre post : List Item) (n : Str) (btx : Str) (epre epost : List (Str × Presentation × Val)) (tx : Str)
     (seen seen2 : List Str) (rest : List TokSpec) (s : PS) (fuel : Nat) (w : W)
     (fs : List Container) (ls : List Loop) (isBlock : Bool) (hcif : w.cif = put (.mk code fs ls))
@@ -735,14 +788,17 @@ theorem table_stray_word_run (o : Opts) {path : Path} {put : Container → Cif} 
         = elemsLoop o fuel s' (some path) isBlock acceptAll
             { log := r :: w.log,
               cif := put (.mk code fs (denoteItems o.dia o.normKey (pre ++ [.item n (.tbl (epre ++ [] ++ epost))] ++ post) ls)) }
-      ∧ r.code = CIF_MISSING_KEY ∧ Feeds o s' rest :=
-  table_item_run_as o hv pre post n btx epre epost [] [(TokType.value, tx)] CIF_MISSING_KEY 1 0 seen seen2 rest s fuel w fs ls isBlock
+      ∧ r.code = CIF_MISSING_KEY ∧ Feeds o s' rest
+      ∧ RepAt o s ((itemsToks pre).length + (1 + (1 + ((entriesToks epre).length + 0)))) r
+      ∧ At o s ((itemsToks pre).length + (1 + (1 + ((entriesToks epre).length + 1 + ((entriesToks epost).length + 1))))
+          + (itemsToks post).length) s' :=
+  table_item_run_as o hv pre post n btx epre epost [] [(TokType.value, tx)] CIF_MISSING_KEY 1 0 0 1 seen seen2 rest s fuel w fs ls isBlock
     hcif hpre hseen hname hfresh hepre hepost
-    (fun F X s1 w1 acc1 hf h => by simpa [denoteEntries, denoteVal] using table_stray_word_step o tx epost X F s1 w1 acc1 hhead hcolon h)
+    (fun F X s1 w1 acc1 hf h => by simpa [denoteEntries, denoteVal] using table_stray_word_step_at o tx epost X F s1 w1 acc1 hhead hcolon h)
     hpost hseen2 hfuel hrest hF
 
 /-- a colon standing alone in key position: one CIF_NULL_KEY, the value behind it is parsed and dropped -/
-theorem table_null_key_run (o : Opts) {path : Path} {put : Container → Cif} {code : Str} (hv : View o path put code)
+theorem table_null_key_run_at (o : Opts) {path : Path} {put : Container → Cif} {code : Str} (hv : View o path put code)
     (pre post : List Item) (n : Str) (btx : Str) (epre epost : List (Str × Presentation × Val)) (v : Val)
     (seen seen2 : List Str) (rest : List TokSpec) (s : PS) (fuel : Nat) (w : W)
     (fs : List Container) (ls : List Loop) (isBlock : Bool) (hcif : w.cif = put (.mk code fs ls))
@@ -751,7 +807,7 @@ theorem table_null_key_run (o : Opts) {path : Path} {put : Container → Cif} {c
     (hepre : wfEntries o epre = true) (hepost : wfEntries o epost = true) (hwv : wfVal o v = true)
     (hpost : wfItems o post seen2 = true)
     (hseen2 : ∀ x ∈ normNames o (denoteItems o.dia o.normKey (pre ++ [.item n (.tbl (epre ++ [] ++ epost))]) ls), x ∈ seen2)
-    (hfuel : szItems pre + szItems post + (szEntries epre + szEntries epost + szVal v + 2 + 2 * epre.length + 3) + 1 ≤ fuel)
+    (hfuel : szItems pre + szItems post + (szEntries epre + szEntries epost + (szVal v) + 2 + 2 * epre.length + 3) + 1 ≤ fuel)
     (hrest : lastIsLoop post = true → ∃ ty tx ts, rest = (ty, tx) :: ts ∧ isTerminator ty = true)
     (hF : Feeds o s (itemsToks pre ++ (((.name, n) :: (.otable, btx) ::
         (entriesToks epre ++ (((TokType.value, [colon]) :: valToks v) ++ (entriesToks epost ++ [(.ctable, [125])])))) ++ (itemsToks post ++ rest)))) :
@@ -759,10 +815,13 @@ theorem table_null_key_run (o : Opts) {path : Path} {put : Container → Cif} {c
         = elemsLoop o fuel s' (some path) isBlock acceptAll
             { log := r :: w.log,
               cif := put (.mk code fs (denoteItems o.dia o.normKey (pre ++ [.item n (.tbl (epre ++ [] ++ epost))] ++ post) ls)) }
-      ∧ r.code = CIF_NULL_KEY ∧ Feeds o s' rest :=
-  table_item_run_as o hv pre post n btx epre epost [] ((TokType.value, [colon]) :: valToks v) CIF_NULL_KEY 2 (szVal v) seen seen2 rest s fuel w fs ls isBlock
+      ∧ r.code = CIF_NULL_KEY ∧ Feeds o s' rest
+      ∧ RepAt o s ((itemsToks pre).length + (1 + (1 + ((entriesToks epre).length + 0)))) r
+      ∧ At o s ((itemsToks pre).length + (1 + (1 + ((entriesToks epre).length + (1 + (valToks v).length) + ((entriesToks epost).length + 1))))
+          + (itemsToks post).length) s' :=
+  table_item_run_as o hv pre post n btx epre epost [] ((TokType.value, [colon]) :: valToks v) CIF_NULL_KEY 2 (szVal v) 0 (1 + (valToks v).length) seen seen2 rest s fuel w fs ls isBlock
     hcif hpre hseen hname hfresh hepre hepost
-    (fun F X s1 w1 acc1 hf h => by simpa [denoteEntries, denoteVal] using table_null_key_step o v epost X F s1 w1 acc1 hwv hf h)
+    (fun F X s1 w1 acc1 hf h => by simpa [denoteEntries, denoteVal] using table_null_key_step_at o v epost X F s1 w1 acc1 hwv hf h)
     hpost hseen2 hfuel hrest hF
 
 end CifModel.Model.Parser
@@ -777,103 +836,6 @@ The parser pushes the tail of the word back to the scanner (TRIM_TOKEN).  What t
 the scanner (and of the column it has reached: the column is not adjusted by the push-back), so these two classes are stated
 at the table loop, anchored at the scanner state: the word handed out is `t`; after the push-back the scanner feeds the value
 `v` and then whatever follows (`hre`).  `acc` — the entries collected before — is arbitrary, the entries behind are arbitrary. -/
-
-theorem table_unquoted_key_step (o : Opts) (t : Tok) (s' : PS) (i : Nat) (v : Val) (X : List TokSpec) (F : Nat)
-    (s1 : PS) (w1 : W) (acc1 : List (Str × Str × V))
-    (hn : ∀ pol w, nextTok o s1 pol w = .ok (t, s') w) (hty : t.ty = .value) (hhead : t.text.head? ≠ some colon)
-    (hci : colonIdx t.text = some i)
-    (hk0 : noNul (t.text.take i) = true) (hkd : hasDisallowed (t.text.take i) = false)
-    (hwv : wfVal o v = true) (hf : szVal v ≤ F)
-    (hre : Feeds o (consume (trimTok s' t (i + 1) .key).2) (valToks v ++ X)) :
-    ∃ s2 r, tableLoop o (F + 2) s1 acc1 acceptAll w1
-        = tableLoop o F s2 (putEntry o.normKey acc1 (t.text.take i) (denoteVal o.dia o.normKey v)) acceptAll
-            { w1 with log := r :: w1.log }
-      ∧ r.code = CIF_UNQUOTED_KEY ∧ Feeds o s2 X := by
-  obtain ⟨vty, vtx, vts, hvt, hstart, _⟩ := valToks_head v
-  have hr' := hre
-  rw [hvt, List.cons_append] at hr'
-  obtain ⟨t2, s2, hty2, htx2, hn2, ht2, hr2⟩ := hr'.inv
-  have hpend : Feeds o s2 (valToks v ++ X) := by
-    rw [hvt, List.cons_append, ← hty2, ← htx2]; exact Feeds.pending ht2 hr2
-  let r0 : Report := ⟨CIF_UNQUOTED_KEY, s'.scan.line, s'.scan.col - t.text.length⟩
-  obtain ⟨s3, h1, h2⟩ := value_structure o v _ s2 F acceptAll { w1 with log := r0 :: w1.log } hwv hf hpend
-  have hk : (trimTok s' t (i + 1) .key).fst.text.take i = t.text.take i := by
-    show (t.text.take (i + 1)).take i = t.text.take i
-    simp [List.take_take]
-  refine ⟨s3, r0, ?_, rfl, h2⟩
-  rw [tableLoop]
-  simp only [bind_eq, pure_eq, P.bind, P.pure, hn, hty, hhead, if_false, hci, report_accept]
-  rw [tableEntry]
-  simp only [hk, cstr_noNul hk0, bind_eq, pure_eq, P.bind, P.pure, hkd, Bool.false_eq_true, if_false, hn2, hty2, hstart, if_true, h1,
-    tableSet_eq_putEntry, r0]
-
-/-- `… key:value …}` without quotes inside a table: exactly one CIF_UNQUOTED_KEY; the table is the entries before, the entry
-    `key ↦ value`, and the entries behind -/
-theorem table_unquoted_key_tail (o : Opts) (t : Tok) (s' : PS) (i : Nat) (v : Val) (epost : List (Str × Presentation × Val))
-    (X : List TokSpec) (fuel : Nat) (s1 : PS) (w1 : W) (acc1 : List (Str × Str × V))
-    (hn : ∀ pol w, nextTok o s1 pol w = .ok (t, s') w) (hty : t.ty = .value) (hhead : t.text.head? ≠ some colon)
-    (hci : colonIdx t.text = some i)
-    (hk0 : noNul (t.text.take i) = true) (hkd : hasDisallowed (t.text.take i) = false)
-    (hwv : wfVal o v = true) (hepost : wfEntries o epost = true) (hf : szVal v + szEntries epost + 3 ≤ fuel)
-    (hre : Feeds o (consume (trimTok s' t (i + 1) .key).2) (valToks v ++ (entriesToks epost ++ (.ctable, [125]) :: X))) :
-    ∃ s2 r, tableLoop o fuel s1 acc1 acceptAll w1
-        = .ok (denoteEntries o.dia o.normKey epost (putEntry o.normKey acc1 (t.text.take i) (denoteVal o.dia o.normKey v)), s2)
-            { w1 with log := r :: w1.log }
-      ∧ r.code = CIF_UNQUOTED_KEY ∧ Feeds o s2 X := by
-  obtain ⟨F, rfl⟩ : ∃ F, fuel = F + 2 := ⟨fuel - 2, by omega⟩
-  obtain ⟨s2, r, h1, h2, h3⟩ := table_unquoted_key_step o t s' i v _ F s1 w1 acc1 hn hty hhead hci hk0 hkd hwv (by omega) hre
-  obtain ⟨s3, h4, h5⟩ := entries_structure o epost X s2 F acceptAll { w1 with log := r :: w1.log }
-    (putEntry o.normKey acc1 (t.text.take i) (denoteVal o.dia o.normKey v)) hepost (by omega) h3
-  exact ⟨s3, r, by rw [h1, h4], h2, h5⟩
-
-theorem table_null_key_long_step (o : Opts) (t : Tok) (s' : PS) (v : Val) (X : List TokSpec) (F : Nat)
-    (s1 : PS) (w1 : W) (acc1 : List (Str × Str × V))
-    (hn : ∀ pol w, nextTok o s1 pol w = .ok (t, s') w) (hty : t.ty = .value) (hhead : t.text.head? = some colon)
-    (hlen : 1 < t.text.length) (hwv : wfVal o v = true) (hf : szVal v ≤ F)
-    (hre : Feeds o (consume (trimTok s' t 1 .key).2) (valToks v ++ X)) :
-    ∃ s2 r, tableLoop o (F + 2) s1 acc1 acceptAll w1 = tableLoop o F s2 acc1 acceptAll { w1 with log := r :: w1.log }
-      ∧ r.code = CIF_NULL_KEY ∧ Feeds o s2 X := by
-  obtain ⟨vty, vtx, vts, hvt, hstart, _⟩ := valToks_head v
-  have hr' := hre
-  rw [hvt, List.cons_append] at hr'
-  obtain ⟨t2, s2, hty2, htx2, hn2, ht2, hr2⟩ := hr'.inv
-  have hpend : Feeds o s2 (valToks v ++ X) := by
-    rw [hvt, List.cons_append, ← hty2, ← htx2]; exact Feeds.pending ht2 hr2
-  let r0 : Report := ⟨CIF_NULL_KEY, s'.scan.line, s'.scan.col - t.text.length⟩
-  obtain ⟨s3, h1, h2⟩ := value_structure o v _ s2 F acceptAll { w1 with log := r0 :: w1.log } hwv hf hpend
-  refine ⟨s3, r0, ?_, rfl, h2⟩
-  rw [tableLoop]
-  simp only [bind_eq, pure_eq, P.bind, P.pure, hn, hty, hhead, if_true, report_accept, gt_iff_lt, hlen]
-  rw [tableEntry]
-  simp only [bind_eq, pure_eq, P.bind, P.pure, hn2, hty2, hstart, if_true, h1, r0]
-
-/-- `… :value …}` (a colon with nothing in front) inside a table: exactly one CIF_NULL_KEY; the value is dropped -/
-theorem table_null_key_long_tail (o : Opts) (t : Tok) (s' : PS) (v : Val) (epost : List (Str × Presentation × Val))
-    (X : List TokSpec) (fuel : Nat) (s1 : PS) (w1 : W) (acc1 : List (Str × Str × V))
-    (hn : ∀ pol w, nextTok o s1 pol w = .ok (t, s') w) (hty : t.ty = .value) (hhead : t.text.head? = some colon)
-    (hlen : 1 < t.text.length) (hwv : wfVal o v = true) (hepost : wfEntries o epost = true)
-    (hf : szVal v + szEntries epost + 3 ≤ fuel)
-    (hre : Feeds o (consume (trimTok s' t 1 .key).2) (valToks v ++ (entriesToks epost ++ (.ctable, [125]) :: X))) :
-    ∃ s2 r, tableLoop o fuel s1 acc1 acceptAll w1
-        = .ok (denoteEntries o.dia o.normKey epost acc1, s2) { w1 with log := r :: w1.log }
-      ∧ r.code = CIF_NULL_KEY ∧ Feeds o s2 X := by
-  obtain ⟨F, rfl⟩ : ∃ F, fuel = F + 2 := ⟨fuel - 2, by omega⟩
-  obtain ⟨s2, r, h1, h2, h3⟩ := table_null_key_long_step o t s' v _ F s1 w1 acc1 hn hty hhead hlen hwv (by omega) hre
-  obtain ⟨s3, h4, h5⟩ := entries_structure o epost X s2 F acceptAll { w1 with log := r :: w1.log } acc1 hepost (by omega) h3
-  exact ⟨s3, r, by rw [h1, h4], h2, h5⟩
-
-end CifModel.Model.Parser
-
-namespace CifModel.Model.Parser
-open CifModel CifModel.Model CifModel.Model.Lexer CifModel.Spec.Grammar CifModel.Spec.Lexical
-open CifModel.Gen.ErrCodes
-
-/-! ## part 5 — reports of the scanner are transparent to the productions
-
-A class that the SCANNER reports (CIF_RESERVED_WORD: the word is reported and dropped inside next_token; likewise every lexical
-class) reaches the parser as "next_token handed out `t`, the log has grown".  Every production begins by asking for the next
-token, so its run from the state in front of the report equals its run from the state in which `t` is ready, with the grown log:
-the parser half of every scanner-level class.  Anchored at the scanner state (a report is not a token, `Feeds` cannot carry it). -/
 
 theorem nextTok_tok {o : Opts} {s s' : PS} {t : Tok} {pol : Policy} {w w' : W} (h : nextTok o s pol w = .ok (t, s') w') :
     s'.tok = some t := by
@@ -890,6 +852,107 @@ theorem nextTok_tok {o : Opts} {s s' : PS} {t : Tok} {pol : Policy} {w w' : W} (
       obtain ⟨⟨rfl, rfl⟩, _⟩ := h
       rfl
     · cases h
+
+theorem table_unquoted_key_step_at (o : Opts) (t : Tok) (s' : PS) (i : Nat) (v : Val) (X : List TokSpec) (F : Nat)
+    (s1 : PS) (w1 : W) (acc1 : List (Str × Str × V))
+    (hn : ∀ pol w, nextTok o s1 pol w = .ok (t, s') w) (hty : t.ty = .value) (hhead : t.text.head? ≠ some colon)
+    (hci : colonIdx t.text = some i)
+    (hk0 : noNul (t.text.take i) = true) (hkd : hasDisallowed (t.text.take i) = false)
+    (hwv : wfVal o v = true) (hf : szVal v ≤ F)
+    (hre : Feeds o (consume (trimTok s' t (i + 1) .key).2) (valToks v ++ X)) :
+    ∃ s2 r, tableLoop o (F + 2) s1 acc1 acceptAll w1
+        = tableLoop o F s2 (putEntry o.normKey acc1 (t.text.take i) (denoteVal o.dia o.normKey v)) acceptAll
+            { w1 with log := r :: w1.log }
+      ∧ r.code = CIF_UNQUOTED_KEY ∧ Feeds o s2 X
+      ∧ RepAt o s1 0 r := by
+  obtain ⟨vty, vtx, vts, hvt, hstart, _⟩ := valToks_head v
+  have hr' := hre
+  rw [hvt, List.cons_append] at hr'
+  obtain ⟨t2, s2, hty2, htx2, hn2, ht2, hr2⟩ := hr'.inv
+  have hpend : Feeds o s2 (valToks v ++ X) := by
+    rw [hvt, List.cons_append, ← hty2, ← htx2]; exact Feeds.pending ht2 hr2
+  let r0 : Report := ⟨CIF_UNQUOTED_KEY, s'.scan.line, s'.scan.col - t.text.length⟩
+  obtain ⟨s3, h1, h2⟩ := value_structure o v _ s2 F acceptAll { w1 with log := r0 :: w1.log } hwv hf hpend
+  have hk : (trimTok s' t (i + 1) .key).fst.text.take i = t.text.take i := by
+    show (t.text.take (i + 1)).take i = t.text.take i
+    simp [List.take_take]
+  refine ⟨s3, r0, ?_, rfl, h2, ⟨s', (At.refl o s1).peek hn (nextTok_tok (hn acceptAll default)), rfl⟩⟩
+  rw [tableLoop]
+  simp only [bind_eq, pure_eq, P.bind, P.pure, hn, hty, hhead, if_false, hci, report_accept]
+  rw [tableEntry]
+  simp only [hk, cstr_noNul hk0, bind_eq, pure_eq, P.bind, P.pure, hkd, Bool.false_eq_true, if_false, hn2, hty2, hstart, if_true, h1,
+    tableSet_eq_putEntry, r0]
+
+/-- `… key:value …}` without quotes inside a table: exactly one CIF_UNQUOTED_KEY; the table is the entries before, the entry
+    `key ↦ value`, and the entries behind -/
+theorem table_unquoted_key_tail_at (o : Opts) (t : Tok) (s' : PS) (i : Nat) (v : Val) (epost : List (Str × Presentation × Val))
+    (X : List TokSpec) (fuel : Nat) (s1 : PS) (w1 : W) (acc1 : List (Str × Str × V))
+    (hn : ∀ pol w, nextTok o s1 pol w = .ok (t, s') w) (hty : t.ty = .value) (hhead : t.text.head? ≠ some colon)
+    (hci : colonIdx t.text = some i)
+    (hk0 : noNul (t.text.take i) = true) (hkd : hasDisallowed (t.text.take i) = false)
+    (hwv : wfVal o v = true) (hepost : wfEntries o epost = true) (hf : szVal v + szEntries epost + 3 ≤ fuel)
+    (hre : Feeds o (consume (trimTok s' t (i + 1) .key).2) (valToks v ++ (entriesToks epost ++ (.ctable, [125]) :: X))) :
+    ∃ s2 r, tableLoop o fuel s1 acc1 acceptAll w1
+        = .ok (denoteEntries o.dia o.normKey epost (putEntry o.normKey acc1 (t.text.take i) (denoteVal o.dia o.normKey v)), s2)
+            { w1 with log := r :: w1.log }
+      ∧ r.code = CIF_UNQUOTED_KEY ∧ Feeds o s2 X
+      ∧ RepAt o s1 0 r := by
+  obtain ⟨F, rfl⟩ : ∃ F, fuel = F + 2 := ⟨fuel - 2, by omega⟩
+  obtain ⟨s2, r, h1, h2, h3, hrep⟩ := table_unquoted_key_step_at o t s' i v _ F s1 w1 acc1 hn hty hhead hci hk0 hkd hwv (by omega) hre
+  obtain ⟨s3, h4, h5⟩ := entries_structure o epost X s2 F acceptAll { w1 with log := r :: w1.log }
+    (putEntry o.normKey acc1 (t.text.take i) (denoteVal o.dia o.normKey v)) hepost (by omega) h3
+  exact ⟨s3, r, by rw [h1, h4], h2, h5, hrep⟩
+
+theorem table_null_key_long_step_at (o : Opts) (t : Tok) (s' : PS) (v : Val) (X : List TokSpec) (F : Nat)
+    (s1 : PS) (w1 : W) (acc1 : List (Str × Str × V))
+    (hn : ∀ pol w, nextTok o s1 pol w = .ok (t, s') w) (hty : t.ty = .value) (hhead : t.text.head? = some colon)
+    (hlen : 1 < t.text.length) (hwv : wfVal o v = true) (hf : szVal v ≤ F)
+    (hre : Feeds o (consume (trimTok s' t 1 .key).2) (valToks v ++ X)) :
+    ∃ s2 r, tableLoop o (F + 2) s1 acc1 acceptAll w1 = tableLoop o F s2 acc1 acceptAll { w1 with log := r :: w1.log }
+      ∧ r.code = CIF_NULL_KEY ∧ Feeds o s2 X
+      ∧ RepAt o s1 0 r := by
+  obtain ⟨vty, vtx, vts, hvt, hstart, _⟩ := valToks_head v
+  have hr' := hre
+  rw [hvt, List.cons_append] at hr'
+  obtain ⟨t2, s2, hty2, htx2, hn2, ht2, hr2⟩ := hr'.inv
+  have hpend : Feeds o s2 (valToks v ++ X) := by
+    rw [hvt, List.cons_append, ← hty2, ← htx2]; exact Feeds.pending ht2 hr2
+  let r0 : Report := ⟨CIF_NULL_KEY, s'.scan.line, s'.scan.col - t.text.length⟩
+  obtain ⟨s3, h1, h2⟩ := value_structure o v _ s2 F acceptAll { w1 with log := r0 :: w1.log } hwv hf hpend
+  refine ⟨s3, r0, ?_, rfl, h2, ⟨s', (At.refl o s1).peek hn (nextTok_tok (hn acceptAll default)), rfl⟩⟩
+  rw [tableLoop]
+  simp only [bind_eq, pure_eq, P.bind, P.pure, hn, hty, hhead, if_true, report_accept, gt_iff_lt, hlen]
+  rw [tableEntry]
+  simp only [bind_eq, pure_eq, P.bind, P.pure, hn2, hty2, hstart, if_true, h1, r0]
+
+/-- `… :value …}` (a colon with nothing in front) inside a table: exactly one CIF_NULL_KEY; the value is dropped -/
+theorem table_null_key_long_tail_at (o : Opts) (t : Tok) (s' : PS) (v : Val) (epost : List (Str × Presentation × Val))
+    (X : List TokSpec) (fuel : Nat) (s1 : PS) (w1 : W) (acc1 : List (Str × Str × V))
+    (hn : ∀ pol w, nextTok o s1 pol w = .ok (t, s') w) (hty : t.ty = .value) (hhead : t.text.head? = some colon)
+    (hlen : 1 < t.text.length) (hwv : wfVal o v = true) (hepost : wfEntries o epost = true)
+    (hf : szVal v + szEntries epost + 3 ≤ fuel)
+    (hre : Feeds o (consume (trimTok s' t 1 .key).2) (valToks v ++ (entriesToks epost ++ (.ctable, [125]) :: X))) :
+    ∃ s2 r, tableLoop o fuel s1 acc1 acceptAll w1
+        = .ok (denoteEntries o.dia o.normKey epost acc1, s2) { w1 with log := r :: w1.log }
+      ∧ r.code = CIF_NULL_KEY ∧ Feeds o s2 X
+      ∧ RepAt o s1 0 r := by
+  obtain ⟨F, rfl⟩ : ∃ F, fuel = F + 2 := ⟨fuel - 2, by omega⟩
+  obtain ⟨s2, r, h1, h2, h3, hrep⟩ := table_null_key_long_step_at o t s' v _ F s1 w1 acc1 hn hty hhead hlen hwv (by omega) hre
+  obtain ⟨s3, h4, h5⟩ := entries_structure o epost X s2 F acceptAll { w1 with log := r :: w1.log } acc1 hepost (by omega) h3
+  exact ⟨s3, r, by rw [h1, h4], h2, h5, hrep⟩
+
+end CifModel.Model.Parser
+
+namespace CifModel.Model.Parser
+open CifModel CifModel.Model CifModel.Model.Lexer CifModel.Spec.Grammar CifModel.Spec.Lexical
+open CifModel.Gen.ErrCodes
+
+/-! ## part 5 — reports of the scanner are transparent to the productions
+
+A class that the SCANNER reports (CIF_RESERVED_WORD: the word is reported and dropped inside next_token; likewise every lexical
+class) reaches the parser as "next_token handed out `t`, the log has grown".  Every production begins by asking for the next
+token, so its run from the state in front of the report equals its run from the state in which `t` is ready, with the grown log:
+the parser half of every scanner-level class.  Anchored at the scanner state (a report is not a token, `Feeds` cannot carry it). -/
 
 theorem elemsLoop_peek (o : Opts) {s s' : PS} {t : Tok} {pol : Policy} {w w' : W} (h : nextTok o s pol w = .ok (t, s') w')
     (f : Nat) (cont : Option Path) (isBlock : Bool) :
@@ -979,18 +1042,20 @@ open CifModel.Gen.ErrCodes
 
 /-! ## part 6 — `loop_` that is not followed by a data name (CIF_NULL_LOOP): ignored -/
 
-theorem null_loop_step (o : Opts) {path : Path} {put : Container → Cif} {code : Str} (hv : View o path put code)
+theorem null_loop_step_at (o : Opts) {path : Path} {put : Container → Cif} {code : Str} (hv : View o path put code)
     (ty : TokType) (tx : Str) (ts : List TokSpec) (s : PS) (fuel : Nat) (w : W) (fs : List Container) (ls : List Loop)
     (isBlock : Bool) (hcif : w.cif = put (.mk code fs ls)) (hfuel : 1 ≤ fuel) (hnn : ty ≠ .name)
     (hF : Feeds o s ((.loopKw, []) :: (ty, tx) :: ts)) :
     ∃ s' r, elemsLoop o (fuel + 1) s (some path) isBlock acceptAll w
         = elemsLoop o fuel s' (some path) isBlock acceptAll { w with log := r :: w.log }
-      ∧ r.code = CIF_NULL_LOOP ∧ Feeds o s' ((ty, tx) :: ts) := by
-  obtain ⟨t, s1, hty, _, hn, _, hr⟩ := hF.inv
-  obtain ⟨s2, h1, h2⟩ := header_structure o hv fs ls [] [] ((ty, tx) :: ts) (consume s1) fuel acceptAll w hcif
+      ∧ r.code = CIF_NULL_LOOP ∧ Feeds o s' ((ty, tx) :: ts)
+      ∧ RepAt o s 1 r ∧ At o s 1 s' := by
+  obtain ⟨t, s1, hty, _, hn, htk, hr⟩ := hF.inv
+  obtain ⟨s2, h1, h2, ha⟩ := header_structure_at o hv fs ls [] [] ((ty, tx) :: ts) (consume s1) fuel acceptAll w hcif
     (by intro n hn; cases hn) (by intro n hn; cases hn) (by simp) (by simpa using hfuel) ⟨ty, tx, ts, rfl, hnn⟩ hr
   simp only [List.nil_append, List.map_nil] at h1
-  refine ⟨s2, ⟨CIF_NULL_LOOP, s2.scan.line, s2.scan.col - (s2.tok.getD default).text.length⟩, ?_, rfl, h2⟩
+  have a2 : At o s 1 s2 := (((At.refl o s).step hn htk).trans ha).cast (by simp)
+  refine ⟨s2, ⟨CIF_NULL_LOOP, s2.scan.line, s2.scan.col - (s2.tok.getD default).text.length⟩, ?_, rfl, h2, ⟨s2, a2, rfl⟩, a2⟩
   conv => lhs; rw [elemsLoop]
   simp only [bind_eq, pure_eq, P.bind, P.pure, hn, hty]
   unfold parseLoop
@@ -998,6 +1063,400 @@ theorem null_loop_step (o : Opts) {path : Path} {put : Container → Cif} {code 
 
 /-- CIF_NULL_LOOP, universally: any container, any well-formed items before and behind; what follows the lone `loop_` is not a
     data name (a data name would make it a loop header) -/
+theorem null_loop_run_at (o : Opts) {path : Path} {put : Container → Cif} {code : Str} (hv : View o path put code)
+    (pre post : List Item) (seen seen2 : List Str) (rest : List TokSpec) (s : PS) (fuel : Nat) (w : W)
+    (fs : List Container) (ls : List Loop) (isBlock : Bool) (hcif : w.cif = put (.mk code fs ls))
+    (hpre : wfItems o pre seen = true) (hseen : ∀ k ∈ normNames o ls, k ∈ seen)
+    (hpost : wfItems o post seen2 = true)
+    (hseen2 : ∀ k ∈ normNames o (denoteItems o.dia o.normKey pre ls), k ∈ seen2)
+    (hfuel : szItems pre + szItems post + 1 + 1 ≤ fuel)
+    (hnext : ∃ ty tx ts, itemsToks post ++ rest = (ty, tx) :: ts ∧ ty ≠ .name)
+    (hrest : lastIsLoop post = true → ∃ ty tx ts, rest = (ty, tx) :: ts ∧ isTerminator ty = true)
+    (hF : Feeds o s (itemsToks pre ++ ([(.loopKw, [])] ++ (itemsToks post ++ rest)))) :
+    ∃ s' r, elemsLoop o (fuel + post.length + 1 + pre.length) s (some path) isBlock acceptAll w
+        = elemsLoop o fuel s' (some path) isBlock acceptAll
+            { log := r :: w.log, cif := put (.mk code fs (denoteItems o.dia o.normKey (pre ++ post) ls)) }
+      ∧ r.code = CIF_NULL_LOOP ∧ Feeds o s' rest
+      ∧ RepAt o s ((itemsToks pre).length + 1) r ∧ At o s ((itemsToks pre).length + 1 + (itemsToks post).length) s' := by
+  have := defect_run_at o hv pre post [(.loopKw, [])] id CIF_NULL_LOOP 1 1 1 seen seen2 rest s fuel w fs ls isBlock hcif hpre hseen
+    hpost hseen2
+    (by
+      intro s1 w1 f hc hf hF1
+      obtain ⟨ty, tx, ts, hnx, hnn⟩ := hnext
+      rw [hnx] at hF1 ⊢
+      obtain ⟨s2, r, h1, h2, h3, h4, h5⟩ := null_loop_step_at o hv ty tx ts s1 f w1 fs _ isBlock hc hf hnn hF1
+      refine ⟨s2, r, ?_, h2, h3, h4, h5⟩
+      rw [h1]; simp only [id]; rw [← hc])
+    hfuel (fun _ => ⟨_, _, _, rfl, rfl⟩) hrest hF
+  simpa [denoteItems_append] using this
+
+end CifModel.Model.Parser
+
+namespace CifModel.Model.Parser
+open CifModel CifModel.Model CifModel.Model.Lexer CifModel.Spec.Grammar CifModel.Spec.Lexical
+open CifModel.Gen.ErrCodes
+
+/-! ## part 7 — a data name that is not a valid item name (CIF_INVALID_ITEMNAME): the item is parsed and dropped -/
+
+theorem invalid_name_step_at (o : Opts) {path : Path} (n : Str) (v : Val) (next : List TokSpec) (s : PS) (fuel : Nat) (w : W)
+    (isBlock : Bool) (hn0 : noNul n = true) (hinv : isValidName true n = false)
+    (hwv : wfVal o v = true) (hfuel : szVal v ≤ fuel) (hF : Feeds o s ((.name, n) :: (valToks v ++ next))) :
+    ∃ s' r, elemsLoop o (fuel + 1) s (some path) isBlock acceptAll w
+        = elemsLoop o fuel s' (some path) isBlock acceptAll { w with log := r :: w.log }
+      ∧ r.code = CIF_INVALID_ITEMNAME ∧ Feeds o s' next
+      ∧ RepAt o s 1 r ∧ At o s (1 + (valToks v).length) s' := by
+  obtain ⟨t, s1, hty, htx, hn, htk, hr⟩ := hF.inv
+  obtain ⟨ty2, tx2, ts2, hvt, hstart, hkey⟩ := valToks_head v
+  have hr' := hr
+  rw [hvt, List.cons_append] at hr'
+  obtain ⟨t2, s2, hty2, htx2, hn2, ht2, hr2⟩ := hr'.inv
+  have hpend : Feeds o s2 (valToks v ++ next) := by
+    rw [hvt, List.cons_append, ← hty2, ← htx2]; exact Feeds.pending ht2 hr2
+  let r0 : Report := ⟨CIF_INVALID_ITEMNAME, (consume s1).scan.line, (consume s1).scan.col⟩
+  obtain ⟨s3, h1, h2, ha⟩ := value_structure_at o v next s2 fuel acceptAll { w with log := r0 :: w.log } hwv hfuel hpend
+  have hitem : parseItem o fuel (consume s1) (some path) none acceptAll { w with log := r0 :: w.log } = .ok s3 { w with log := r0 :: w.log } := by
+    unfold parseItem
+    simp only [bind_eq, pure_eq, P.bind, P.pure, hn2, hty2, hkey, hstart, if_true, Bool.false_eq_true, if_false, h1]
+  have hex : itemExists o path n acceptAll w = .ok false w := by
+    unfold itemExists
+    simp only [hinv, Bool.not_false, if_true, pure_eq, P.pure]
+  have a1 : At o s 1 (consume s1) := (At.refl o s).step hn htk
+  refine ⟨s3, r0, ?_, rfl, h2, ⟨consume s1, a1, rfl⟩, (a1.peek hn2 ht2).trans ha⟩
+  conv => lhs; rw [elemsLoop]
+  simp only [bind_eq, pure_eq, P.bind, P.pure, hn, hty, htx, cstr_noNul hn0, hex, Bool.false_eq_true, if_false, Option.isSome_some,
+    hinv, Bool.not_false, and_self, if_true, report_accept, hitem, r0]
+
+theorem invalid_name_run_at (o : Opts) {path : Path} {put : Container → Cif} {code : Str} (hv : View o path put code)
+    (pre post : List Item) (n : Str) (v : Val) (seen seen2 : List Str) (rest : List TokSpec) (s : PS) (fuel : Nat) (w : W)
+    (fs : List Container) (ls : List Loop) (isBlock : Bool) (hcif : w.cif = put (.mk code fs ls))
+    (hpre : wfItems o pre seen = true) (hseen : ∀ k ∈ normNames o ls, k ∈ seen)
+    (hn0 : noNul n = true) (hinv : isValidName true n = false)
+    (hwv : wfVal o v = true) (hpost : wfItems o post seen2 = true)
+    (hseen2 : ∀ k ∈ normNames o (denoteItems o.dia o.normKey pre ls), k ∈ seen2)
+    (hfuel : szItems pre + szItems post + szVal v + 1 ≤ fuel)
+    (hrest : lastIsLoop post = true → ∃ ty tx ts, rest = (ty, tx) :: ts ∧ isTerminator ty = true)
+    (hF : Feeds o s (itemsToks pre ++ (((.name, n) :: valToks v) ++ (itemsToks post ++ rest)))) :
+    ∃ s' r, elemsLoop o (fuel + post.length + 1 + pre.length) s (some path) isBlock acceptAll w
+        = elemsLoop o fuel s' (some path) isBlock acceptAll
+            { log := r :: w.log, cif := put (.mk code fs (denoteItems o.dia o.normKey (pre ++ post) ls)) }
+      ∧ r.code = CIF_INVALID_ITEMNAME ∧ Feeds o s' rest
+      ∧ RepAt o s ((itemsToks pre).length + 1) r
+      ∧ At o s ((itemsToks pre).length + (1 + (valToks v).length) + (itemsToks post).length) s' := by
+  have := defect_run_at o hv pre post ((.name, n) :: valToks v) id CIF_INVALID_ITEMNAME (szVal v) 1 (1 + (valToks v).length) seen seen2 rest s fuel w fs ls isBlock hcif
+    hpre hseen hpost hseen2
+    (by
+      intro s1 w1 f hc hf hF1
+      simp only [List.cons_append, List.append_assoc] at hF1
+      obtain ⟨s2, r, h1, h2, h3, h4, h5⟩ := invalid_name_step_at o (path := path) n v _ s1 f w1 isBlock hn0 hinv hwv hf hF1
+      refine ⟨s2, r, ?_, h2, h3, h4, h5⟩
+      rw [h1]; simp only [id]; rw [← hc])
+    hfuel (fun _ => ⟨_, _, _, rfl, rfl⟩) hrest hF
+  simpa [denoteItems_append] using this
+
+end CifModel.Model.Parser
+
+namespace CifModel.Model.Parser
+open CifModel CifModel.Model CifModel.Model.Lexer CifModel.Spec.Grammar CifModel.Spec.Lexical
+open CifModel.Gen.ErrCodes
+
+/-! ## the statements without positions (corollaries of the `_at` forms) -/
+
+theorem unexpected_delim_step (o : Opts) {path : Path} (ty : TokType) (tx : Str) (next : List TokSpec) (s : PS) (fuel : Nat) (w : W)
+    (isBlock : Bool) (hty : ty = .clist ∨ ty = .ctable) (hF : Feeds o s ((ty, tx) :: next)) :
+    ∃ s' r, elemsLoop o (fuel + 1) s (some path) isBlock acceptAll w
+        = elemsLoop o fuel s' (some path) isBlock acceptAll { w with log := r :: w.log }
+      ∧ r.code = CIF_UNEXPECTED_DELIM ∧ Feeds o s' next := by
+  obtain ⟨x0, x1, h0, h1, h2, _, _⟩ := unexpected_delim_step_at (path := path) o ty tx next s fuel w isBlock hty hF
+  exact ⟨x0, x1, h0, h1, h2⟩
+
+theorem unexpected_delim_run (o : Opts) {path : Path} {put : Container → Cif} {code : Str} (hv : View o path put code)
+    (pre post : List Item) (ty : TokType) (tx : Str) (seen seen2 : List Str) (rest : List TokSpec) (s : PS) (fuel : Nat) (w : W)
+    (fs : List Container) (ls : List Loop) (isBlock : Bool) (hcif : w.cif = put (.mk code fs ls))
+    (hty : ty = .clist ∨ ty = .ctable)
+    (hpre : wfItems o pre seen = true) (hseen : ∀ k ∈ normNames o ls, k ∈ seen) (hnoloop : lastIsLoop pre = false)
+    (hpost : wfItems o post seen2 = true)
+    (hseen2 : ∀ k ∈ normNames o (denoteItems o.dia o.normKey pre ls), k ∈ seen2)
+    (hfuel : szItems pre + szItems post + 1 ≤ fuel)
+    (hrest : lastIsLoop post = true → ∃ ty tx ts, rest = (ty, tx) :: ts ∧ isTerminator ty = true)
+    (hF : Feeds o s (itemsToks pre ++ ([(ty, tx)] ++ (itemsToks post ++ rest)))) :
+    ∃ s' r, elemsLoop o (fuel + post.length + 1 + pre.length) s (some path) isBlock acceptAll w
+        = elemsLoop o fuel s' (some path) isBlock acceptAll
+            { log := r :: w.log, cif := put (.mk code fs (denoteItems o.dia o.normKey (pre ++ post) ls)) }
+      ∧ r.code = CIF_UNEXPECTED_DELIM ∧ Feeds o s' rest := by
+  obtain ⟨x0, x1, h0, h1, h2, _, _⟩ := unexpected_delim_run_at  o hv pre post ty tx seen seen2 rest s fuel w fs ls isBlock hcif hty hpre hseen hnoloop hpost hseen2 hfuel hrest hF
+  exact ⟨x0, x1, h0, h1, h2⟩
+
+theorem unexpected_term_step (o : Opts) {path : Path} (tx : Str) (next : List TokSpec) (s : PS) (fuel : Nat) (w : W)
+    (hF : Feeds o s ((.frameTerm, tx) :: next)) :
+    ∃ s' r, elemsLoop o (fuel + 1) s (some path) true acceptAll w
+        = elemsLoop o fuel s' (some path) true acceptAll { w with log := r :: w.log }
+      ∧ r.code = CIF_UNEXPECTED_TERM ∧ Feeds o s' next := by
+  obtain ⟨x0, x1, h0, h1, h2, _, _⟩ := unexpected_term_step_at (path := path) o tx next s fuel w hF
+  exact ⟨x0, x1, h0, h1, h2⟩
+
+theorem unexpected_term_run (o : Opts) {path : Path} {put : Container → Cif} {code : Str} (hv : View o path put code)
+    (pre post : List Item) (tx : Str) (seen seen2 : List Str) (rest : List TokSpec) (s : PS) (fuel : Nat) (w : W)
+    (fs : List Container) (ls : List Loop) (hcif : w.cif = put (.mk code fs ls))
+    (hpre : wfItems o pre seen = true) (hseen : ∀ k ∈ normNames o ls, k ∈ seen)
+    (hpost : wfItems o post seen2 = true)
+    (hseen2 : ∀ k ∈ normNames o (denoteItems o.dia o.normKey pre ls), k ∈ seen2)
+    (hfuel : szItems pre + szItems post + 1 ≤ fuel)
+    (hrest : lastIsLoop post = true → ∃ ty tx ts, rest = (ty, tx) :: ts ∧ isTerminator ty = true)
+    (hF : Feeds o s (itemsToks pre ++ ([(.frameTerm, tx)] ++ (itemsToks post ++ rest)))) :
+    ∃ s' r, elemsLoop o (fuel + post.length + 1 + pre.length) s (some path) true acceptAll w
+        = elemsLoop o fuel s' (some path) true acceptAll
+            { log := r :: w.log, cif := put (.mk code fs (denoteItems o.dia o.normKey (pre ++ post) ls)) }
+      ∧ r.code = CIF_UNEXPECTED_TERM ∧ Feeds o s' rest := by
+  obtain ⟨x0, x1, h0, h1, h2, _, _⟩ := unexpected_term_run_at  o hv pre post tx seen seen2 rest s fuel w fs ls hcif hpre hseen hpost hseen2 hfuel hrest hF
+  exact ⟨x0, x1, h0, h1, h2⟩
+
+theorem missing_delim_list_run (o : Opts) {path : Path} {put : Container → Cif} {code : Str} (hv : View o path put code)
+    (pre post : List Item) (n : Str) (btx : Str) (vs : List Val) (seen seen2 : List Str) (rest : List TokSpec) (s : PS) (fuel : Nat)
+    (w : W) (fs : List Container) (ls : List Loop) (isBlock : Bool) (hcif : w.cif = put (.mk code fs ls))
+    (hpre : wfItems o pre seen = true) (hseen : ∀ k ∈ normNames o ls, k ∈ seen)
+    (hname : wfName n = true) (hfresh : o.norm n ∉ normNames o (denoteItems o.dia o.normKey pre ls))
+    (hwv : wfVals o vs = true) (hpost : wfItems o post seen2 = true)
+    (hseen2 : ∀ k ∈ normNames o (denoteItems o.dia o.normKey (pre ++ [.item n (.lst vs)]) ls), k ∈ seen2)
+    (hfuel : szItems pre + szItems post + (szVals vs + 2) + 1 ≤ fuel)
+    (hpostne : post ≠ [] ∨ ∃ ty tx ts, rest = (ty, tx) :: ts ∧ isTerminator ty = true)
+    (hrest : lastIsLoop post = true → ∃ ty tx ts, rest = (ty, tx) :: ts ∧ isTerminator ty = true)
+    (hF : Feeds o s (itemsToks pre ++ (((.name, n) :: (.olist, btx) :: valsToks vs) ++ (itemsToks post ++ rest)))) :
+    ∃ s' r, elemsLoop o (fuel + post.length + 1 + pre.length) s (some path) isBlock acceptAll w
+        = elemsLoop o fuel s' (some path) isBlock acceptAll
+            { log := r :: w.log, cif := put (.mk code fs (denoteItems o.dia o.normKey (pre ++ [.item n (.lst vs)] ++ post) ls)) }
+      ∧ r.code = CIF_MISSING_DELIM ∧ Feeds o s' rest := by
+  obtain ⟨x0, x1, h0, h1, h2, _, _⟩ := missing_delim_list_run_at  o hv pre post n btx vs seen seen2 rest s fuel w fs ls isBlock hcif hpre hseen hname hfresh hwv hpost hseen2 hfuel hpostne hrest hF
+  exact ⟨x0, x1, h0, h1, h2⟩
+
+theorem missing_delim_table_run (o : Opts) {path : Path} {put : Container → Cif} {code : Str} (hv : View o path put code)
+    (pre post : List Item) (n : Str) (btx : Str) (es : List (Str × Presentation × Val)) (seen seen2 : List Str) (rest : List TokSpec)
+    (s : PS) (fuel : Nat) (w : W) (fs : List Container) (ls : List Loop) (isBlock : Bool) (hcif : w.cif = put (.mk code fs ls))
+    (hpre : wfItems o pre seen = true) (hseen : ∀ k ∈ normNames o ls, k ∈ seen)
+    (hname : wfName n = true) (hfresh : o.norm n ∉ normNames o (denoteItems o.dia o.normKey pre ls))
+    (hwv : wfEntries o es = true) (hpost : wfItems o post seen2 = true)
+    (hseen2 : ∀ k ∈ normNames o (denoteItems o.dia o.normKey (pre ++ [.item n (.tbl es)]) ls), k ∈ seen2)
+    (hfuel : szItems pre + szItems post + (szEntries es + 2) + 1 ≤ fuel)
+    (hpostne : post ≠ [] ∨ ∃ ty tx ts, rest = (ty, tx) :: ts ∧ isTerminator ty = true)
+    (hrest : lastIsLoop post = true → ∃ ty tx ts, rest = (ty, tx) :: ts ∧ isTerminator ty = true)
+    (hF : Feeds o s (itemsToks pre ++ (((.name, n) :: (.otable, btx) :: entriesToks es) ++ (itemsToks post ++ rest)))) :
+    ∃ s' r, elemsLoop o (fuel + post.length + 1 + pre.length) s (some path) isBlock acceptAll w
+        = elemsLoop o fuel s' (some path) isBlock acceptAll
+            { log := r :: w.log, cif := put (.mk code fs (denoteItems o.dia o.normKey (pre ++ [.item n (.tbl es)] ++ post) ls)) }
+      ∧ r.code = CIF_MISSING_DELIM ∧ Feeds o s' rest := by
+  obtain ⟨x0, x1, h0, h1, h2, _, _⟩ := missing_delim_table_run_at  o hv pre post n btx es seen seen2 rest s fuel w fs ls isBlock hcif hpre hseen hname hfresh hwv hpost hseen2 hfuel hpostne hrest hF
+  exact ⟨x0, x1, h0, h1, h2⟩
+
+theorem table_missing_value_step (o : Opts) (k : Str) (epost : List (Str × Presentation × Val)) (X : List TokSpec) (F : Nat) (s1 : PS)
+    (w1 : W) (acc1 : List (Str × Str × V)) (hk0 : noNul k = true) (hkd : hasDisallowed k = false)
+    (hF : Feeds o s1 ([(.key, k)] ++ (entriesToks epost ++ (.ctable, [125]) :: X))) :
+    ∃ s2 r, tableLoop o (F + 2) s1 acc1 acceptAll w1
+        = tableLoop o F s2 (putEntry o.normKey acc1 k .unk) acceptAll { w1 with log := r :: w1.log }
+      ∧ r.code = CIF_MISSING_VALUE ∧ Feeds o s2 (entriesToks epost ++ (.ctable, [125]) :: X) := by
+  obtain ⟨x0, x1, h0, h1, h2, _, _⟩ := table_missing_value_step_at  o k epost X F s1 w1 acc1 hk0 hkd hF
+  exact ⟨x0, x1, h0, h1, h2⟩
+
+theorem table_misquoted_key_step (o : Opts) (body : Str) (v : Val) (epost : List (Str × Presentation × Val)) (X : List TokSpec) (F : Nat)
+    (s1 : PS) (w1 : W) (acc1 : List (Str × Str × V))
+    (hk0 : noNul (Decode.decodeText o.unfold o.prem body) = true) (hkd : hasDisallowed (Decode.decodeText o.unfold o.prem body) = false)
+    (hwv : wfVal o v = true) (hf : szVal v ≤ F)
+    (hF : Feeds o s1 (((.tkey, body) :: valToks v) ++ (entriesToks epost ++ (.ctable, [125]) :: X))) :
+    ∃ s2 r, tableLoop o (F + 2) s1 acc1 acceptAll w1
+        = tableLoop o F s2 (putEntry o.normKey acc1 (Decode.decodeText o.unfold o.prem body) (denoteVal o.dia o.normKey v)) acceptAll
+            { w1 with log := r :: w1.log }
+      ∧ r.code = CIF_MISQUOTED_KEY ∧ Feeds o s2 (entriesToks epost ++ (.ctable, [125]) :: X) := by
+  obtain ⟨x0, x1, h0, h1, h2, _, _⟩ := table_misquoted_key_step_at  o body v epost X F s1 w1 acc1 hk0 hkd hwv hf hF
+  exact ⟨x0, x1, h0, h1, h2⟩
+
+theorem table_missing_key_step (o : Opts) (v : Val) (epost : List (Str × Presentation × Val)) (X : List TokSpec) (F : Nat)
+    (s1 : PS) (w1 : W) (acc1 : List (Str × Str × V)) (hnb : notBare v = true) (hwv : wfVal o v = true) (hf : szVal v ≤ F)
+    (hF : Feeds o s1 (valToks v ++ (entriesToks epost ++ (.ctable, [125]) :: X))) :
+    ∃ s2 r, tableLoop o (F + 1) s1 acc1 acceptAll w1 = tableLoop o F s2 acc1 acceptAll { w1 with log := r :: w1.log }
+      ∧ r.code = CIF_MISSING_KEY ∧ Feeds o s2 (entriesToks epost ++ (.ctable, [125]) :: X) := by
+  obtain ⟨x0, x1, h0, h1, h2, _, _⟩ := table_missing_key_step_at  o v epost X F s1 w1 acc1 hnb hwv hf hF
+  exact ⟨x0, x1, h0, h1, h2⟩
+
+theorem table_stray_word_step (o : Opts) (tx : Str) (epost : List (Str × Presentation × Val)) (X : List TokSpec) (F : Nat)
+    (s1 : PS) (w1 : W) (acc1 : List (Str × Str × V)) (hhead : tx.head? ≠ some colon) (hcolon : colonIdx tx = none)
+    (hF : Feeds o s1 ([(.value, tx)] ++ (entriesToks epost ++ (.ctable, [125]) :: X))) :
+    ∃ s2 r, tableLoop o (F + 1) s1 acc1 acceptAll w1 = tableLoop o F s2 acc1 acceptAll { w1 with log := r :: w1.log }
+      ∧ r.code = CIF_MISSING_KEY ∧ Feeds o s2 (entriesToks epost ++ (.ctable, [125]) :: X) := by
+  obtain ⟨x0, x1, h0, h1, h2, _, _⟩ := table_stray_word_step_at  o tx epost X F s1 w1 acc1 hhead hcolon hF
+  exact ⟨x0, x1, h0, h1, h2⟩
+
+theorem table_null_key_step (o : Opts) (v : Val) (epost : List (Str × Presentation × Val)) (X : List TokSpec) (F : Nat)
+    (s1 : PS) (w1 : W) (acc1 : List (Str × Str × V)) (hwv : wfVal o v = true) (hf : szVal v ≤ F)
+    (hF : Feeds o s1 (((.value, [colon]) :: valToks v) ++ (entriesToks epost ++ (.ctable, [125]) :: X))) :
+    ∃ s2 r, tableLoop o (F + 2) s1 acc1 acceptAll w1 = tableLoop o F s2 acc1 acceptAll { w1 with log := r :: w1.log }
+      ∧ r.code = CIF_NULL_KEY ∧ Feeds o s2 (entriesToks epost ++ (.ctable, [125]) :: X) := by
+  obtain ⟨x0, x1, h0, h1, h2, _, _⟩ := table_null_key_step_at  o v epost X F s1 w1 acc1 hwv hf hF
+  exact ⟨x0, x1, h0, h1, h2⟩
+
+theorem table_missing_value_run (o : Opts) {path : Path} {put : Container → Cif} {code : Str} (hv : View o path put code)
+    (pre post : List Item) (n : Str) (btx : Str) (epre epost : List (Str × Presentation × Val)) (k : Str) (kp : Presentation)
+    (seen seen2 : List Str) (rest : List TokSpec) (s : PS) (fuel : Nat) (w : W)
+    (fs : List Container) (ls : List Loop) (isBlock : Bool) (hcif : w.cif = put (.mk code fs ls))
+    (hpre : wfItems o pre seen = true) (hseen : ∀ k ∈ normNames o ls, k ∈ seen)
+    (hname : wfName n = true) (hfresh : o.norm n ∉ normNames o (denoteItems o.dia o.normKey pre ls))
+    (hepre : wfEntries o epre = true) (hepost : wfEntries o epost = true) (hk0 : noNul k = true) (hkd : hasDisallowed k = false)
+    (hpost : wfItems o post seen2 = true)
+    (hseen2 : ∀ x ∈ normNames o (denoteItems o.dia o.normKey (pre ++ [.item n (.tbl (epre ++ [(k, kp, Val.unk)] ++ epost))]) ls), x ∈ seen2)
+    (hfuel : szItems pre + szItems post + (szEntries epre + szEntries epost + 0 + 2 + 2 * epre.length + 3) + 1 ≤ fuel)
+    (hrest : lastIsLoop post = true → ∃ ty tx ts, rest = (ty, tx) :: ts ∧ isTerminator ty = true)
+    (hF : Feeds o s (itemsToks pre ++ (((.name, n) :: (.otable, btx) ::
+        (entriesToks epre ++ ([(TokType.key, k)] ++ (entriesToks epost ++ [(.ctable, [125])])))) ++ (itemsToks post ++ rest)))) :
+    ∃ s' r, elemsLoop o (fuel + post.length + 1 + pre.length) s (some path) isBlock acceptAll w
+        = elemsLoop o fuel s' (some path) isBlock acceptAll
+            { log := r :: w.log,
+              cif := put (.mk code fs (denoteItems o.dia o.normKey (pre ++ [.item n (.tbl (epre ++ [(k, kp, Val.unk)] ++ epost))] ++ post) ls)) }
+      ∧ r.code = CIF_MISSING_VALUE ∧ Feeds o s' rest := by
+  obtain ⟨x0, x1, h0, h1, h2, _, _⟩ := table_missing_value_run_at  o hv pre post n btx epre epost k kp seen seen2 rest s fuel w fs ls isBlock hcif hpre hseen hname hfresh hepre hepost hk0 hkd hpost hseen2 hfuel hrest hF
+  exact ⟨x0, x1, h0, h1, h2⟩
+
+theorem table_misquoted_key_run (o : Opts) {path : Path} {put : Container → Cif} {code : Str} (hv : View o path put code)
+    (pre post : List Item) (n : Str) (btx : Str) (epre epost : List (Str × Presentation × Val)) (body : Str) (kp : Presentation) (v : Val)
+    (seen seen2 : List Str) (rest : List TokSpec) (s : PS) (fuel : Nat) (w : W)
+    (fs : List Container) (ls : List Loop) (isBlock : Bool) (hcif : w.cif = put (.mk code fs ls))
+    (hpre : wfItems o pre seen = true) (hseen : ∀ k ∈ normNames o ls, k ∈ seen)
+    (hname : wfName n = true) (hfresh : o.norm n ∉ normNames o (denoteItems o.dia o.normKey pre ls))
+    (hepre : wfEntries o epre = true) (hepost : wfEntries o epost = true) (hk0 : noNul (Decode.decodeText o.unfold o.prem body) = true)
+    (hkd : hasDisallowed (Decode.decodeText o.unfold o.prem body) = false) (hwv : wfVal o v = true)
+    (hpost : wfItems o post seen2 = true)
+    (hseen2 : ∀ x ∈ normNames o (denoteItems o.dia o.normKey (pre ++ [.item n (.tbl (epre ++ [(Decode.decodeText o.unfold o.prem body, kp, v)] ++ epost))]) ls), x ∈ seen2)
+    (hfuel : szItems pre + szItems post + (szEntries epre + szEntries epost + (szVal v) + 2 + 2 * epre.length + 3) + 1 ≤ fuel)
+    (hrest : lastIsLoop post = true → ∃ ty tx ts, rest = (ty, tx) :: ts ∧ isTerminator ty = true)
+    (hF : Feeds o s (itemsToks pre ++ (((.name, n) :: (.otable, btx) ::
+        (entriesToks epre ++ (((TokType.tkey, body) :: valToks v) ++ (entriesToks epost ++ [(.ctable, [125])])))) ++ (itemsToks post ++ rest)))) :
+    ∃ s' r, elemsLoop o (fuel + post.length + 1 + pre.length) s (some path) isBlock acceptAll w
+        = elemsLoop o fuel s' (some path) isBlock acceptAll
+            { log := r :: w.log,
+              cif := put (.mk code fs (denoteItems o.dia o.normKey (pre ++ [.item n (.tbl (epre ++ [(Decode.decodeText o.unfold o.prem body, kp, v)] ++ epost))] ++ post) ls)) }
+      ∧ r.code = CIF_MISQUOTED_KEY ∧ Feeds o s' rest := by
+  obtain ⟨x0, x1, h0, h1, h2, _, _⟩ := table_misquoted_key_run_at  o hv pre post n btx epre epost body kp v seen seen2 rest s fuel w fs ls isBlock hcif hpre hseen hname hfresh hepre hepost hk0 hkd hwv hpost hseen2 hfuel hrest hF
+  exact ⟨x0, x1, h0, h1, h2⟩
+
+theorem table_missing_key_run (o : Opts) {path : Path} {put : Container → Cif} {code : Str} (hv : View o path put code)
+    (pre post : List Item) (n : Str) (btx : Str) (epre epost : List (Str × Presentation × Val)) (v : Val)
+    (seen seen2 : List Str) (rest : List TokSpec) (s : PS) (fuel : Nat) (w : W)
+    (fs : List Container) (ls : List Loop) (isBlock : Bool) (hcif : w.cif = put (.mk code fs ls))
+    (hpre : wfItems o pre seen = true) (hseen : ∀ k ∈ normNames o ls, k ∈ seen)
+    (hname : wfName n = true) (hfresh : o.norm n ∉ normNames o (denoteItems o.dia o.normKey pre ls))
+    (hepre : wfEntries o epre = true) (hepost : wfEntries o epost = true) (hnb : notBare v = true) (hwv : wfVal o v = true)
+    (hpost : wfItems o post seen2 = true)
+    (hseen2 : ∀ x ∈ normNames o (denoteItems o.dia o.normKey (pre ++ [.item n (.tbl (epre ++ [] ++ epost))]) ls), x ∈ seen2)
+    (hfuel : szItems pre + szItems post + (szEntries epre + szEntries epost + (szVal v) + 1 + 2 * epre.length + 3) + 1 ≤ fuel)
+    (hrest : lastIsLoop post = true → ∃ ty tx ts, rest = (ty, tx) :: ts ∧ isTerminator ty = true)
+    (hF : Feeds o s (itemsToks pre ++ (((.name, n) :: (.otable, btx) ::
+        (entriesToks epre ++ ((valToks v) ++ (entriesToks epost ++ [(.ctable, [125])])))) ++ (itemsToks post ++ rest)))) :
+    ∃ s' r, elemsLoop o (fuel + post.length + 1 + pre.length) s (some path) isBlock acceptAll w
+        = elemsLoop o fuel s' (some path) isBlock acceptAll
+            { log := r :: w.log,
+              cif := put (.mk code fs (denoteItems o.dia o.normKey (pre ++ [.item n (.tbl (epre ++ [] ++ epost))] ++ post) ls)) }
+      ∧ r.code = CIF_MISSING_KEY ∧ Feeds o s' rest := by
+  obtain ⟨x0, x1, h0, h1, h2, _, _⟩ := table_missing_key_run_at  o hv pre post n btx epre epost v seen seen2 rest s fuel w fs ls isBlock hcif hpre hseen hname hfresh hepre hepost hnb hwv hpost hseen2 hfuel hrest hF
+  exact ⟨x0, x1, h0, h1, h2⟩
+
+theorem table_stray_word_run (o : Opts) {path : Path} {put : Container → Cif} {code : Str} (hv : View o path put code)
+    (pre post : List Item) (n : Str) (btx : Str) (epre epost : List (Str × Presentation × Val)) (tx : Str)
+    (seen seen2 : List Str) (rest : List TokSpec) (s : PS) (fuel : Nat) (w : W)
+    (fs : List Container) (ls : List Loop) (isBlock : Bool) (hcif : w.cif = put (.mk code fs ls))
+    (hpre : wfItems o pre seen = true) (hseen : ∀ k ∈ normNames o ls, k ∈ seen)
+    (hname : wfName n = true) (hfresh : o.norm n ∉ normNames o (denoteItems o.dia o.normKey pre ls))
+    (hepre : wfEntries o epre = true) (hepost : wfEntries o epost = true) (hhead : tx.head? ≠ some colon) (hcolon : colonIdx tx = none)
+    (hpost : wfItems o post seen2 = true)
+    (hseen2 : ∀ x ∈ normNames o (denoteItems o.dia o.normKey (pre ++ [.item n (.tbl (epre ++ [] ++ epost))]) ls), x ∈ seen2)
+    (hfuel : szItems pre + szItems post + (szEntries epre + szEntries epost + 0 + 1 + 2 * epre.length + 3) + 1 ≤ fuel)
+    (hrest : lastIsLoop post = true → ∃ ty tx ts, rest = (ty, tx) :: ts ∧ isTerminator ty = true)
+    (hF : Feeds o s (itemsToks pre ++ (((.name, n) :: (.otable, btx) ::
+        (entriesToks epre ++ ([(TokType.value, tx)] ++ (entriesToks epost ++ [(.ctable, [125])])))) ++ (itemsToks post ++ rest)))) :
+    ∃ s' r, elemsLoop o (fuel + post.length + 1 + pre.length) s (some path) isBlock acceptAll w
+        = elemsLoop o fuel s' (some path) isBlock acceptAll
+            { log := r :: w.log,
+              cif := put (.mk code fs (denoteItems o.dia o.normKey (pre ++ [.item n (.tbl (epre ++ [] ++ epost))] ++ post) ls)) }
+      ∧ r.code = CIF_MISSING_KEY ∧ Feeds o s' rest := by
+  obtain ⟨x0, x1, h0, h1, h2, _, _⟩ := table_stray_word_run_at  o hv pre post n btx epre epost tx seen seen2 rest s fuel w fs ls isBlock hcif hpre hseen hname hfresh hepre hepost hhead hcolon hpost hseen2 hfuel hrest hF
+  exact ⟨x0, x1, h0, h1, h2⟩
+
+theorem table_null_key_run (o : Opts) {path : Path} {put : Container → Cif} {code : Str} (hv : View o path put code)
+    (pre post : List Item) (n : Str) (btx : Str) (epre epost : List (Str × Presentation × Val)) (v : Val)
+    (seen seen2 : List Str) (rest : List TokSpec) (s : PS) (fuel : Nat) (w : W)
+    (fs : List Container) (ls : List Loop) (isBlock : Bool) (hcif : w.cif = put (.mk code fs ls))
+    (hpre : wfItems o pre seen = true) (hseen : ∀ k ∈ normNames o ls, k ∈ seen)
+    (hname : wfName n = true) (hfresh : o.norm n ∉ normNames o (denoteItems o.dia o.normKey pre ls))
+    (hepre : wfEntries o epre = true) (hepost : wfEntries o epost = true) (hwv : wfVal o v = true)
+    (hpost : wfItems o post seen2 = true)
+    (hseen2 : ∀ x ∈ normNames o (denoteItems o.dia o.normKey (pre ++ [.item n (.tbl (epre ++ [] ++ epost))]) ls), x ∈ seen2)
+    (hfuel : szItems pre + szItems post + (szEntries epre + szEntries epost + (szVal v) + 2 + 2 * epre.length + 3) + 1 ≤ fuel)
+    (hrest : lastIsLoop post = true → ∃ ty tx ts, rest = (ty, tx) :: ts ∧ isTerminator ty = true)
+    (hF : Feeds o s (itemsToks pre ++ (((.name, n) :: (.otable, btx) ::
+        (entriesToks epre ++ (((TokType.value, [colon]) :: valToks v) ++ (entriesToks epost ++ [(.ctable, [125])])))) ++ (itemsToks post ++ rest)))) :
+    ∃ s' r, elemsLoop o (fuel + post.length + 1 + pre.length) s (some path) isBlock acceptAll w
+        = elemsLoop o fuel s' (some path) isBlock acceptAll
+            { log := r :: w.log,
+              cif := put (.mk code fs (denoteItems o.dia o.normKey (pre ++ [.item n (.tbl (epre ++ [] ++ epost))] ++ post) ls)) }
+      ∧ r.code = CIF_NULL_KEY ∧ Feeds o s' rest := by
+  obtain ⟨x0, x1, h0, h1, h2, _, _⟩ := table_null_key_run_at  o hv pre post n btx epre epost v seen seen2 rest s fuel w fs ls isBlock hcif hpre hseen hname hfresh hepre hepost hwv hpost hseen2 hfuel hrest hF
+  exact ⟨x0, x1, h0, h1, h2⟩
+
+theorem table_unquoted_key_step (o : Opts) (t : Tok) (s' : PS) (i : Nat) (v : Val) (X : List TokSpec) (F : Nat)
+    (s1 : PS) (w1 : W) (acc1 : List (Str × Str × V))
+    (hn : ∀ pol w, nextTok o s1 pol w = .ok (t, s') w) (hty : t.ty = .value) (hhead : t.text.head? ≠ some colon)
+    (hci : colonIdx t.text = some i)
+    (hk0 : noNul (t.text.take i) = true) (hkd : hasDisallowed (t.text.take i) = false)
+    (hwv : wfVal o v = true) (hf : szVal v ≤ F)
+    (hre : Feeds o (consume (trimTok s' t (i + 1) .key).2) (valToks v ++ X)) :
+    ∃ s2 r, tableLoop o (F + 2) s1 acc1 acceptAll w1
+        = tableLoop o F s2 (putEntry o.normKey acc1 (t.text.take i) (denoteVal o.dia o.normKey v)) acceptAll
+            { w1 with log := r :: w1.log }
+      ∧ r.code = CIF_UNQUOTED_KEY ∧ Feeds o s2 X := by
+  obtain ⟨x0, x1, h0, h1, h2, _⟩ := table_unquoted_key_step_at  o t s' i v X F s1 w1 acc1 hn hty hhead hci hk0 hkd hwv hf hre
+  exact ⟨x0, x1, h0, h1, h2⟩
+
+theorem table_unquoted_key_tail (o : Opts) (t : Tok) (s' : PS) (i : Nat) (v : Val) (epost : List (Str × Presentation × Val))
+    (X : List TokSpec) (fuel : Nat) (s1 : PS) (w1 : W) (acc1 : List (Str × Str × V))
+    (hn : ∀ pol w, nextTok o s1 pol w = .ok (t, s') w) (hty : t.ty = .value) (hhead : t.text.head? ≠ some colon)
+    (hci : colonIdx t.text = some i)
+    (hk0 : noNul (t.text.take i) = true) (hkd : hasDisallowed (t.text.take i) = false)
+    (hwv : wfVal o v = true) (hepost : wfEntries o epost = true) (hf : szVal v + szEntries epost + 3 ≤ fuel)
+    (hre : Feeds o (consume (trimTok s' t (i + 1) .key).2) (valToks v ++ (entriesToks epost ++ (.ctable, [125]) :: X))) :
+    ∃ s2 r, tableLoop o fuel s1 acc1 acceptAll w1
+        = .ok (denoteEntries o.dia o.normKey epost (putEntry o.normKey acc1 (t.text.take i) (denoteVal o.dia o.normKey v)), s2)
+            { w1 with log := r :: w1.log }
+      ∧ r.code = CIF_UNQUOTED_KEY ∧ Feeds o s2 X := by
+  obtain ⟨x0, x1, h0, h1, h2, _⟩ := table_unquoted_key_tail_at  o t s' i v epost X fuel s1 w1 acc1 hn hty hhead hci hk0 hkd hwv hepost hf hre
+  exact ⟨x0, x1, h0, h1, h2⟩
+
+theorem table_null_key_long_step (o : Opts) (t : Tok) (s' : PS) (v : Val) (X : List TokSpec) (F : Nat)
+    (s1 : PS) (w1 : W) (acc1 : List (Str × Str × V))
+    (hn : ∀ pol w, nextTok o s1 pol w = .ok (t, s') w) (hty : t.ty = .value) (hhead : t.text.head? = some colon)
+    (hlen : 1 < t.text.length) (hwv : wfVal o v = true) (hf : szVal v ≤ F)
+    (hre : Feeds o (consume (trimTok s' t 1 .key).2) (valToks v ++ X)) :
+    ∃ s2 r, tableLoop o (F + 2) s1 acc1 acceptAll w1 = tableLoop o F s2 acc1 acceptAll { w1 with log := r :: w1.log }
+      ∧ r.code = CIF_NULL_KEY ∧ Feeds o s2 X := by
+  obtain ⟨x0, x1, h0, h1, h2, _⟩ := table_null_key_long_step_at  o t s' v X F s1 w1 acc1 hn hty hhead hlen hwv hf hre
+  exact ⟨x0, x1, h0, h1, h2⟩
+
+theorem table_null_key_long_tail (o : Opts) (t : Tok) (s' : PS) (v : Val) (epost : List (Str × Presentation × Val))
+    (X : List TokSpec) (fuel : Nat) (s1 : PS) (w1 : W) (acc1 : List (Str × Str × V))
+    (hn : ∀ pol w, nextTok o s1 pol w = .ok (t, s') w) (hty : t.ty = .value) (hhead : t.text.head? = some colon)
+    (hlen : 1 < t.text.length) (hwv : wfVal o v = true) (hepost : wfEntries o epost = true)
+    (hf : szVal v + szEntries epost + 3 ≤ fuel)
+    (hre : Feeds o (consume (trimTok s' t 1 .key).2) (valToks v ++ (entriesToks epost ++ (.ctable, [125]) :: X))) :
+    ∃ s2 r, tableLoop o fuel s1 acc1 acceptAll w1
+        = .ok (denoteEntries o.dia o.normKey epost acc1, s2) { w1 with log := r :: w1.log }
+      ∧ r.code = CIF_NULL_KEY ∧ Feeds o s2 X := by
+  obtain ⟨x0, x1, h0, h1, h2, _⟩ := table_null_key_long_tail_at  o t s' v epost X fuel s1 w1 acc1 hn hty hhead hlen hwv hepost hf hre
+  exact ⟨x0, x1, h0, h1, h2⟩
+
+theorem null_loop_step (o : Opts) {path : Path} {put : Container → Cif} {code : Str} (hv : View o path put code)
+    (ty : TokType) (tx : Str) (ts : List TokSpec) (s : PS) (fuel : Nat) (w : W) (fs : List Container) (ls : List Loop)
+    (isBlock : Bool) (hcif : w.cif = put (.mk code fs ls)) (hfuel : 1 ≤ fuel) (hnn : ty ≠ .name)
+    (hF : Feeds o s ((.loopKw, []) :: (ty, tx) :: ts)) :
+    ∃ s' r, elemsLoop o (fuel + 1) s (some path) isBlock acceptAll w
+        = elemsLoop o fuel s' (some path) isBlock acceptAll { w with log := r :: w.log }
+      ∧ r.code = CIF_NULL_LOOP ∧ Feeds o s' ((ty, tx) :: ts) := by
+  obtain ⟨x0, x1, h0, h1, h2, _, _⟩ := null_loop_step_at  o hv ty tx ts s fuel w fs ls isBlock hcif hfuel hnn hF
+  exact ⟨x0, x1, h0, h1, h2⟩
+
 theorem null_loop_run (o : Opts) {path : Path} {put : Container → Cif} {code : Str} (hv : View o path put code)
     (pre post : List Item) (seen seen2 : List Str) (rest : List TokSpec) (s : PS) (fuel : Nat) (w : W)
     (fs : List Container) (ls : List Loop) (isBlock : Bool) (hcif : w.cif = put (.mk code fs ls))
@@ -1012,25 +1471,8 @@ theorem null_loop_run (o : Opts) {path : Path} {put : Container → Cif} {code :
         = elemsLoop o fuel s' (some path) isBlock acceptAll
             { log := r :: w.log, cif := put (.mk code fs (denoteItems o.dia o.normKey (pre ++ post) ls)) }
       ∧ r.code = CIF_NULL_LOOP ∧ Feeds o s' rest := by
-  have := defect_run o hv pre post [(.loopKw, [])] id CIF_NULL_LOOP 1 seen seen2 rest s fuel w fs ls isBlock hcif hpre hseen
-    hpost hseen2
-    (by
-      intro s1 w1 f hc hf hF1
-      obtain ⟨ty, tx, ts, hnx, hnn⟩ := hnext
-      rw [hnx] at hF1 ⊢
-      obtain ⟨s2, r, h1, h2, h3⟩ := null_loop_step o hv ty tx ts s1 f w1 fs _ isBlock hc hf hnn hF1
-      refine ⟨s2, r, ?_, h2, h3⟩
-      rw [h1]; simp only [id]; rw [← hc])
-    hfuel (fun _ => ⟨_, _, _, rfl, rfl⟩) hrest hF
-  simpa [denoteItems_append] using this
-
-end CifModel.Model.Parser
-
-namespace CifModel.Model.Parser
-open CifModel CifModel.Model CifModel.Model.Lexer CifModel.Spec.Grammar CifModel.Spec.Lexical
-open CifModel.Gen.ErrCodes
-
-/-! ## part 7 — a data name that is not a valid item name (CIF_INVALID_ITEMNAME): the item is parsed and dropped -/
+  obtain ⟨x0, x1, h0, h1, h2, _, _⟩ := null_loop_run_at  o hv pre post seen seen2 rest s fuel w fs ls isBlock hcif hpre hseen hpost hseen2 hfuel hnext hrest hF
+  exact ⟨x0, x1, h0, h1, h2⟩
 
 theorem invalid_name_step (o : Opts) {path : Path} (n : Str) (v : Val) (next : List TokSpec) (s : PS) (fuel : Nat) (w : W)
     (isBlock : Bool) (hn0 : noNul n = true) (hinv : isValidName true n = false)
@@ -1038,25 +1480,8 @@ theorem invalid_name_step (o : Opts) {path : Path} (n : Str) (v : Val) (next : L
     ∃ s' r, elemsLoop o (fuel + 1) s (some path) isBlock acceptAll w
         = elemsLoop o fuel s' (some path) isBlock acceptAll { w with log := r :: w.log }
       ∧ r.code = CIF_INVALID_ITEMNAME ∧ Feeds o s' next := by
-  obtain ⟨t, s1, hty, htx, hn, _, hr⟩ := hF.inv
-  obtain ⟨ty2, tx2, ts2, hvt, hstart, hkey⟩ := valToks_head v
-  have hr' := hr
-  rw [hvt, List.cons_append] at hr'
-  obtain ⟨t2, s2, hty2, htx2, hn2, ht2, hr2⟩ := hr'.inv
-  have hpend : Feeds o s2 (valToks v ++ next) := by
-    rw [hvt, List.cons_append, ← hty2, ← htx2]; exact Feeds.pending ht2 hr2
-  let r0 : Report := ⟨CIF_INVALID_ITEMNAME, (consume s1).scan.line, (consume s1).scan.col⟩
-  obtain ⟨s3, h1, h2⟩ := value_structure o v next s2 fuel acceptAll { w with log := r0 :: w.log } hwv hfuel hpend
-  have hitem : parseItem o fuel (consume s1) (some path) none acceptAll { w with log := r0 :: w.log } = .ok s3 { w with log := r0 :: w.log } := by
-    unfold parseItem
-    simp only [bind_eq, pure_eq, P.bind, P.pure, hn2, hty2, hkey, hstart, if_true, Bool.false_eq_true, if_false, h1]
-  have hex : itemExists o path n acceptAll w = .ok false w := by
-    unfold itemExists
-    simp only [hinv, Bool.not_false, if_true, pure_eq, P.pure]
-  refine ⟨s3, r0, ?_, rfl, h2⟩
-  conv => lhs; rw [elemsLoop]
-  simp only [bind_eq, pure_eq, P.bind, P.pure, hn, hty, htx, cstr_noNul hn0, hex, Bool.false_eq_true, if_false, Option.isSome_some,
-    hinv, Bool.not_false, and_self, if_true, report_accept, hitem, r0]
+  obtain ⟨x0, x1, h0, h1, h2, _, _⟩ := invalid_name_step_at (path := path) o n v next s fuel w isBlock hn0 hinv hwv hfuel hF
+  exact ⟨x0, x1, h0, h1, h2⟩
 
 theorem invalid_name_run (o : Opts) {path : Path} {put : Container → Cif} {code : Str} (hv : View o path put code)
     (pre post : List Item) (n : Str) (v : Val) (seen seen2 : List Str) (rest : List TokSpec) (s : PS) (fuel : Nat) (w : W)
@@ -1072,15 +1497,7 @@ theorem invalid_name_run (o : Opts) {path : Path} {put : Container → Cif} {cod
         = elemsLoop o fuel s' (some path) isBlock acceptAll
             { log := r :: w.log, cif := put (.mk code fs (denoteItems o.dia o.normKey (pre ++ post) ls)) }
       ∧ r.code = CIF_INVALID_ITEMNAME ∧ Feeds o s' rest := by
-  have := defect_run o hv pre post ((.name, n) :: valToks v) id CIF_INVALID_ITEMNAME (szVal v) seen seen2 rest s fuel w fs ls isBlock hcif
-    hpre hseen hpost hseen2
-    (by
-      intro s1 w1 f hc hf hF1
-      simp only [List.cons_append, List.append_assoc] at hF1
-      obtain ⟨s2, r, h1, h2, h3⟩ := invalid_name_step o (path := path) n v _ s1 f w1 isBlock hn0 hinv hwv hf hF1
-      refine ⟨s2, r, ?_, h2, h3⟩
-      rw [h1]; simp only [id]; rw [← hc])
-    hfuel (fun _ => ⟨_, _, _, rfl, rfl⟩) hrest hF
-  simpa [denoteItems_append] using this
+  obtain ⟨x0, x1, h0, h1, h2, _, _⟩ := invalid_name_run_at  o hv pre post n v seen seen2 rest s fuel w fs ls isBlock hcif hpre hseen hn0 hinv hwv hpost hseen2 hfuel hrest hF
+  exact ⟨x0, x1, h0, h1, h2⟩
 
 end CifModel.Model.Parser
